@@ -2,15 +2,20 @@
 from __future__ import annotations
 
 import ast
+import bisect
+import builtins
+import math
+import operator
 import statistics
+from fractions import Fraction
 
 from sa import pat as P
 from sa import source
-from sa.cfg import cfg_of, guards
+from sa.classes import decorator_names, is_logging_call, is_logging_stmt
 from sa.minieval import CannotEval, Record, ev
-from sa.source import AnchorMissing, arg_of, bind_args, dotted, is_self_attr, last_attr, local_defs, params_of, short, u, walk_body
-from sa.sym import UnknownAtom, atoms_of, comparison, parse_expr, rat_equal
-from sa.tables import Outcome, Unsupported, decide
+from sa.source import AnchorMissing, bind_args, dotted, is_self_attr, last_attr, local_defs, params_of, short, u, walk_body
+from sa.sym import UnknownAtom, atoms_of, parse_expr, rat_equal
+from sa.tables import Unsupported
 
 _M = "esrally/metrics.py"
 
@@ -20,24 +25,54 @@ COUNTS = [1, 2, 5, 9, 10, 50, 99, 100, 500, 999, 1000, 5000, 9999, 10000, 10**6]
 
 def record_key_agreement(chk, rid, met):
     """GlobalStats.tasks() lists, and GlobalStats.metrics(task) selects by, the SAME record key: the task name, falling back to the operation name (shared with C20:
-    the comparison pairs the records of both races through these two)."""
-    from sa import pat
-    gsm = met.methods(met.cls("GlobalStats"))
-    mt, tk = gsm.get("metrics"), gsm.get("tasks")
-    if mt is None or tk is None:
-        raise AnchorMissing("GlobalStats.metrics / GlobalStats.tasks")
-    keyexprs = []
-    for f in (mt, tk):
-        for n in ast.walk(f):
-            if isinstance(n, ast.Call) and last_attr(n.func) == "get" and n.args and source.is_const(n.args[0], "task"):
-                keyexprs.append((f.name, n))
-    ok = len(keyexprs) == 2 and all(len(n.args) == 2 and isinstance(n.args[1], ast.Subscript) and source.is_const(n.args[1].slice, "operation") for _, n in keyexprs)
-    chk.ob(rid, "tasks() and metrics() use the same record key: task name, else operation", ok, mt, f"{[(f_, u(n)) for f_, n in keyexprs]}", key="esrally/metrics.py:GlobalStats:record-key")
-    tp = params_of(mt)[1]
-    rets = [n for n in walk_body(mt) if isinstance(n, ast.Return) and not (isinstance(n.value, ast.Constant) and n.value.value is None)]
-    ok = bool(rets) and all(pat.guarded(r, f"E_rec.get('task', E_rec['operation']) == {tp}") is not None and len(pat.fact_nodes(r)) == 1 for r in rets)
-    chk.ob(rid, "metrics(task) returns the record whose key EQUALS the requested task (no other match rule)", ok, rets[0] if rets else mt,
-           f"selected under {[u(f_) for r in rets for f_ in pat.fact_nodes(r)]}", key="esrally/metrics.py:GlobalStats.metrics:equality")
+    the comparison pairs the records of both races through these two). Decided on values: both methods are RUN (machine) on a results object holding representative per-task
+    records (with a task name, without one as written before Rally 0.8.0, two tasks sharing an operation), so a comprehension, a loop, a lookup table or a helper are all the same."""
+    GS = met.cls("GlobalStats")
+    gsm = met.methods(GS)
+    mt, tk, gi = gsm.get("metrics"), gsm.get("tasks"), gsm.get("__init__")
+    if mt is None or tk is None or gi is None or len(params_of(mt)) != 2 or len(params_of(tk)) != 1 or len(params_of(gi)) != 2:
+        raise AnchorMissing("GlobalStats.__init__(self, d) / GlobalStats.metrics(self, task) / GlobalStats.tasks(self)")
+    methods, mfuncs = _mro_methods(met, GS), _module_functions(met)
+    recs = [{"task": "t1", "operation": "o1", "throughput": {"mean": 1}}, {"operation": "o2", "throughput": {"mean": 2}}, {"task": "t3", "operation": "o1", "throughput": {"mean": 3}},
+            {"task": "o2x", "operation": "o4", "throughput": {"mean": 4}}]
+    keys = ["t1", "o2", "t3", "o2x"]
+    strangers = ["o1", "o4", "t", "o", "nope"]  # operation names of records that HAVE a task name, prefixes, unknown names: none of them is a record key
+    try:
+        obj = Record()
+        k0, v0 = _Machine(methods=methods, functions=mfuncs).run(gi, [None], recv=obj)
+        lists = [a for a, v in obj.fields.items() if isinstance(v, list)]
+        ao = gsm.get("add_op_metrics")
+        if k0 == "return" and len(lists) != 1 and ao is not None:
+            # by role: the per-task records live in the list that add_op_metrics appends to
+            _Machine(methods=methods, functions=mfuncs).run(ao, [], {p_: f"<{p_}>" for p_ in params_of(ao)[1:]}, recv=obj)
+            lists = [a for a in lists if len(obj.fields[a]) == 1]
+        if k0 != "return" or len(lists) != 1:
+            chk.unknown(rid, f"the attribute of GlobalStats holding the per-task records is not located ({k0}; candidate attributes: {lists})", gi)
+            return
+        obj.fields[lists[0]] = recs
+        run = lambda f, a: _Machine(methods=methods, functions=mfuncs).run(f, a, recv=obj)
+        kt, listed = run(tk, [])
+        listed = list(listed) if kt == "return" and isinstance(listed, (list, tuple)) else listed
+        sel = {k: run(mt, [k]) for k in keys + strangers}
+    except (CannotEval, _Unsup) as x:
+        chk.unknown(rid, f"GlobalStats.tasks / metrics are not evaluable on representative per-task records: {x}", mt)
+        return
+    wrong = [k for k, r_ in zip(keys, recs) if not (sel[k][0] == "return" and sel[k][1] is r_)]
+    ok = kt == "return" and listed == keys and not wrong
+    chk.ob(rid, "tasks() and metrics() use the same record key: task name, else operation", ok, mt,
+           "" if ok else (f"tasks() -> {kt} {listed!r}, expected {keys} (task name, else the operation name)" if not (kt == "return" and listed == keys)
+                          else f"metrics({wrong[0]!r}) -> {sel[wrong[0]][0]} {sel[wrong[0]][1]!r}, expected the record listed under that key")[:260], key="esrally/metrics.py:GlobalStats:record-key")
+    hit = [k for k in strangers if not (sel[k][0] == "return" and sel[k][1] is None)]
+    chk.ob(rid, "metrics(task) returns the record whose key EQUALS the requested task (no other match rule)", not hit, mt,
+           "" if not hit else f"metrics({hit[0]!r}) -> {sel[hit[0]][0]} {sel[hit[0]][1]!r} although no record has that key (keys: {keys}; o1 / o4 are operation names of records that have a task name)"[:300],
+           key="esrally/metrics.py:GlobalStats.metrics:equality")
+
+
+def _need(methods, name, owner):
+    """the method of that name, or 'anchor missing' (exit 2) instead of a KeyError inside the checker."""
+    if name not in methods:
+        raise AnchorMissing(f"{owner}.{name}")
+    return methods[name]
 
 
 def _loop_var(node):
@@ -55,68 +90,780 @@ class _WouldRaise(Exception):
     """the extracted expression, evaluated on the representative value, raises at run time (an aggregate over / an index into an empty sequence)."""
 
 
-_AGGREGATES = {"min": min, "max": max, "sum": sum, "statistics.median": statistics.median, "statistics.median_low": statistics.median_low, "statistics.median_high": statistics.median_high,
-               "statistics.mean": statistics.mean, "statistics.fmean": statistics.fmean}
+# ---- a small abstract machine over extracted code (local helper; a candidate for sa/) -----------------------------------------------------------------------------------------
+class _Unsup(Exception):
+    """a statement / expression form the machine does not interpret: the verdict is 'not recognised', never a falsified obligation."""
 
 
-def _sev(e, env):
-    """local extension of minieval.ev for statistics records (minieval folds `min([])` into CannotEval and does not know the statistics module): a one-argument aggregate call and a
-    constant index are evaluated here and report the exception Python raises on an empty / too short sequence as _WouldRaise; everything else is left to ev."""
-    if isinstance(e, ast.Call) and dotted(e.func) in _AGGREGATES and len(e.args) == 1 and not e.keywords:
-        v = _sev(e.args[0], env)
-        if not isinstance(v, (list, tuple)):
-            raise CannotEval(f"{u(e)[:60]}: argument is not a sequence")
-        if len(v) == 0 and dotted(e.func) != "sum":
-            raise _WouldRaise(f"`{u(e)}` is evaluated on an empty sequence ({'StatisticsError' if dotted(e.func).startswith('statistics.') else 'ValueError'})")
-        try:
-            return _AGGREGATES[dotted(e.func)](v)
-        except (TypeError, ValueError, statistics.StatisticsError) as x:
-            raise CannotEval(f"{u(e)[:60]}: {type(x).__name__}")
-    if isinstance(e, ast.Subscript) and not isinstance(e.slice, ast.Slice):
-        v, k = _sev(e.value, env), _sev(e.slice, env)
-        if isinstance(v, (list, tuple)) and isinstance(k, int) and not isinstance(k, bool) and not -len(v) <= k < len(v):
-            raise _WouldRaise(f"`{u(e)}` indexes a sequence of length {len(v)} (IndexError)")
-    return ev(e, env)
+class _Raised(_WouldRaise):
+    """the analysed code raises on the representative input (a `raise` statement, or an operation that raises at run time)."""
 
 
-def _collect(loop, env):
-    """run `for <name> in <evaluable>: <list>.append(e) | <list>.extend(e) | <list> += e | <such a loop>` on the values in env (tables.decide does not interpret loops);
-    False (env untouched) when the loop is of any other shape or something in it is not evaluable."""
-    trial = {k: (list(v) if isinstance(v, list) else v) for k, v in env.items()}
+class _Closure:
+    """a function value: a lambda / def node, the environment it was created in and (for a method reached through `self`) the receiver."""
 
-    def run_(lp, e_):
-        if not isinstance(lp.target, ast.Name) or lp.orelse:
-            return False
-        it = _sev(lp.iter, e_)
-        if not isinstance(it, (list, tuple)):
-            return False
-        for item in it:
-            e_[lp.target.id] = item
-            for st in lp.body:
-                if isinstance(st, ast.For):
-                    if not run_(st, e_):
-                        return False
-                    continue
-                if isinstance(st, ast.Expr) and isinstance(st.value, ast.Call) and isinstance(st.value.func, ast.Attribute) and isinstance(st.value.func.value, ast.Name) \
-                        and st.value.func.attr in ("append", "extend") and len(st.value.args) == 1 and not st.value.keywords:
-                    tgt, how, val = st.value.func.value.id, st.value.func.attr, st.value.args[0]
-                elif isinstance(st, ast.AugAssign) and isinstance(st.op, ast.Add) and isinstance(st.target, ast.Name):
-                    tgt, how, val = st.target.id, "extend", st.value
+    def __init__(self, node, env, recv=None):
+        self.node, self.env, self.recv = node, env, recv
+
+
+class _Member(Record):
+    """an enum member: compared by identity, truthiness of its value (SampleType.Warmup == 0 is falsy)."""
+
+    def __bool__(self):
+        return bool(self.fields.get("value"))
+
+
+class _Stub(Record):
+    """an object the rule stands in for (e.g. the metrics store seen from the calculator): attribute reads from `fields`, calls answered by `calls[name](args, kwargs, call node)`."""
+
+    def __init__(self, calls=None, **fields):
+        super().__init__(**fields)
+        self.calls = calls or {}
+
+
+_M_CMP = {ast.Eq: operator.eq, ast.NotEq: operator.ne, ast.Lt: operator.lt, ast.LtE: operator.le, ast.Gt: operator.gt, ast.GtE: operator.ge, ast.Is: operator.is_, ast.IsNot: operator.is_not,
+          ast.In: lambda a, b: a in b, ast.NotIn: lambda a, b: a not in b}
+_M_BIN = {ast.Add: operator.add, ast.Sub: operator.sub, ast.Mult: operator.mul, ast.Div: operator.truediv, ast.FloorDiv: operator.floordiv, ast.Mod: operator.mod, ast.Pow: operator.pow}
+_NUM = (int, float)
+
+
+def _bounded_range(*a):
+    r = range(*a)
+    if len(r) > 100000:
+        raise _Unsup("range too large for the machine")
+    return list(r)
+
+
+_M_PURE = {
+    "len": len, "sorted": sorted, "list": list, "tuple": tuple, "set": set, "frozenset": frozenset, "dict": dict, "sum": sum, "min": min, "max": max, "any": any, "all": all, "abs": abs,
+    "round": round, "float": float, "int": int, "str": str, "bool": bool, "divmod": divmod, "pow": pow, "repr": repr,
+    "enumerate": lambda *a, **k: list(enumerate(*a, **k)), "zip": lambda *a: list(zip(*a)), "range": _bounded_range, "reversed": lambda x: list(reversed(x)),
+    "map": lambda f, *xs: list(map(f, *xs)), "filter": lambda f, xs: list(filter(f, xs)),
+    "math.floor": math.floor, "math.ceil": math.ceil, "math.trunc": math.trunc, "math.fsum": math.fsum, "math.isclose": math.isclose, "math.sqrt": math.sqrt, "math.fabs": math.fabs,
+    "statistics.mean": statistics.mean, "statistics.fmean": statistics.fmean, "statistics.median": statistics.median, "statistics.median_low": statistics.median_low,
+    "statistics.median_high": statistics.median_high, "collections.OrderedDict": dict, "OrderedDict": dict,
+    "bisect.bisect": bisect.bisect, "bisect.bisect_right": bisect.bisect_right, "bisect.bisect_left": bisect.bisect_left, "bisect_right": bisect.bisect_right, "bisect_left": bisect.bisect_left,
+    "operator.itemgetter": operator.itemgetter,
+}
+_M_VALUE_METHODS = {
+    list: {"append", "extend", "insert", "sort", "reverse", "count", "index", "copy", "pop"},
+    tuple: {"count", "index"},
+    dict: {"get", "items", "keys", "values", "update", "setdefault", "pop", "copy"},
+    set: {"add", "update", "discard", "union", "intersection", "difference", "issubset", "issuperset", "copy"},
+    frozenset: {"union", "intersection", "difference", "issubset", "issuperset"},
+    str: {"lower", "upper", "casefold", "title", "capitalize", "strip", "lstrip", "rstrip", "replace", "split", "rsplit", "partition", "startswith", "endswith", "join", "format", "zfill", "isdigit"},
+    float: {"is_integer"},
+    int: {"bit_length"},
+}
+_M_TYPES = {"dict": dict, "list": list, "str": str, "bytes": bytes, "int": int, "float": float, "tuple": tuple, "set": set, "bool": bool}
+
+
+class _Machine:
+    """Runs EXTRACTED statements and expressions on representative values: assignments, if / for / while, return / raise, comprehensions, lambdas, calls of the methods of the analysed
+    class (through `self`), of module-level functions and of a fixed table of pure builtins (len, sorted, math.floor, statistics.mean, ...). The machine walks the AST itself: nothing of
+    the repository is imported or called. Whatever it does not interpret raises _Unsup / CannotEval (the rule then reports 'not recognised'); an exception the analysed code would raise on
+    the representative input is reported as _Raised. Because whole methods are run, a helper extracted from them, a hoisted local, a guard clause, a loop turned into a comprehension or
+    a table scanned in a loop are all the same computation to the rules that use it."""
+
+    def __init__(self, methods=None, functions=None, names=None, hooks=None, fuel=400000):
+        self.methods = methods or {}      # name -> def, resolved on `self` / `cls`
+        self.functions = functions or {}  # module-level functions
+        self.names = names or {}          # module-level values (enum classes, literal constants)
+        self.hooks = hooks or {}          # method name -> callable(bound parameters) answering INSTEAD of the method (a query the rule stands in for)
+        self.fuel = fuel
+        self.depth = 0
+
+    def tick(self):
+        self.fuel -= 1
+        if self.fuel < 0:
+            raise _Unsup("evaluation budget exhausted")
+
+    @staticmethod
+    def truth(v):
+        return bool(v)
+
+    def pyfunc(self, v):
+        return (lambda *a, **k: self.apply(v, list(a), dict(k))) if isinstance(v, _Closure) else v
+
+    # -- expressions ---------------------------------------------------------------------------------------------------------------------------------------------------------
+    def expr(self, e, env):
+        self.tick()
+        t = type(e)
+        if t is ast.Constant:
+            return e.value
+        if t is ast.Name:
+            if e.id in env:
+                return env[e.id]
+            if e.id in self.names:
+                return self.names[e.id]
+            if e.id in self.functions:
+                return _Closure(self.functions[e.id], {})
+            raise CannotEval(f"unbound name {e.id}")
+        if t is ast.Attribute:
+            v = self.expr(e.value, env)
+            if isinstance(v, Record) and e.attr in v.fields:
+                return v.fields[e.attr]
+            if isinstance(v, Record) and e.attr == "__dict__":
+                return v.fields  # the live attribute dictionary, as in Python
+            raise CannotEval(f"attribute {short(e, 60)}")
+        if t is ast.Subscript:
+            v = self.expr(e.value, env)
+            if isinstance(e.slice, ast.Slice):
+                lo, hi, st = (self.expr(x, env) if x is not None else None for x in (e.slice.lower, e.slice.upper, e.slice.step))
+                if not isinstance(v, (list, tuple, str)):
+                    raise CannotEval(f"{short(e, 60)}: slice of a non-sequence")
+                try:
+                    return v[lo:hi:st]
+                except (TypeError, ValueError) as x:
+                    raise CannotEval(f"{short(e, 60)}: {type(x).__name__}")
+            return self.index(v, self.expr(e.slice, env), e)
+        if t is ast.Compare:
+            left = self.expr(e.left, env)
+            for op, c in zip(e.ops, e.comparators):
+                right = self.expr(c, env)
+                try:
+                    r = _M_CMP[type(op)](left, right)
+                except TypeError as x:
+                    raise CannotEval(f"{short(e, 60)}: {x}")
+                if not r:
+                    return False
+                left = right
+            return True
+        if t is ast.BoolOp:
+            r = None
+            for v in e.values:
+                r = self.expr(v, env)
+                if self.truth(r) != isinstance(e.op, ast.And):
+                    return r
+            return r
+        if t is ast.UnaryOp:
+            v = self.expr(e.operand, env)
+            if isinstance(e.op, ast.Not):
+                return not self.truth(v)
+            if isinstance(v, _NUM) and not isinstance(v, bool):
+                return -v if isinstance(e.op, ast.USub) else v if isinstance(e.op, ast.UAdd) else self._no(e)
+            raise CannotEval(f"{short(e, 60)}: operand")
+        if t is ast.BinOp:
+            a, b = self.expr(e.left, env), self.expr(e.right, env)
+            num = all(isinstance(x, _NUM) and not isinstance(x, bool) for x in (a, b))
+            same_seq = any(isinstance(a, k) and isinstance(b, k) for k in (list, tuple, str)) and isinstance(e.op, ast.Add)
+            rep = isinstance(e.op, ast.Mult) and ((isinstance(a, (list, tuple, str)) and type(b) is int) or (isinstance(b, (list, tuple, str)) and type(a) is int))
+            if type(e.op) not in _M_BIN or not (num or same_seq or rep):
+                raise CannotEval(f"{short(e, 60)}: operands")
+            if num and isinstance(e.op, (ast.Div, ast.FloorDiv, ast.Mod)) and b == 0:
+                raise _Raised(f"`{short(e, 60)}` divides by zero (ZeroDivisionError)")
+            try:
+                return _M_BIN[type(e.op)](a, b)
+            except (OverflowError, ValueError, TypeError, ZeroDivisionError) as x:
+                raise CannotEval(f"{short(e, 60)}: {type(x).__name__}")
+        if t is ast.IfExp:
+            return self.expr(e.body if self.truth(self.expr(e.test, env)) else e.orelse, env)
+        if t in (ast.List, ast.Tuple, ast.Set):
+            vals = []
+            for x in e.elts:
+                if isinstance(x, ast.Starred):
+                    vals += list(self.iterate(self.expr(x.value, env), x))
                 else:
-                    return False
-                v = _sev(val, e_)
-                if not isinstance(e_.get(tgt), list) or (how == "extend" and not isinstance(v, (list, tuple))):
-                    return False
-                e_[tgt] = e_[tgt] + ([v] if how == "append" else list(v))
-        return True
+                    vals.append(self.expr(x, env))
+            try:
+                return vals if t is ast.List else tuple(vals) if t is ast.Tuple else set(vals)
+            except TypeError:
+                raise CannotEval(f"{short(e, 60)}: unhashable element")
+        if t is ast.Dict:
+            out = {}
+            for k, v in zip(e.keys, e.values):
+                if k is None:
+                    d = self.expr(v, env)
+                    if not isinstance(d, dict):
+                        raise CannotEval(f"{short(e, 60)}: ** of a non-dict")
+                    out.update(d)
+                else:
+                    try:
+                        out[self.expr(k, env)] = self.expr(v, env)
+                    except TypeError:
+                        raise CannotEval(f"{short(e, 60)}: unhashable key")
+            return out
+        if t is ast.Call:
+            return self.call(e, env)
+        if t is ast.Lambda:
+            return _Closure(e, env)
+        if t in (ast.ListComp, ast.SetComp, ast.GeneratorExp, ast.DictComp):
+            return self.comp(e, env)
+        if t is ast.NamedExpr and isinstance(e.target, ast.Name):
+            env[e.target.id] = self.expr(e.value, env)
+            return env[e.target.id]
+        if t is ast.JoinedStr:
+            tmp = {}
 
-    try:
-        if not run_(loop, trial):
-            return False
-    except (CannotEval, _WouldRaise):
-        return False
-    env.update(trial)
-    return True
+            def lift(x):
+                if isinstance(x, ast.FormattedValue):
+                    tmp[f"__t{len(tmp)}"] = self.expr(x.value, env)
+                    return ast.FormattedValue(value=ast.Name(id=f"__t{len(tmp) - 1}", ctx=ast.Load()), conversion=x.conversion,
+                                              format_spec=ast.JoinedStr(values=[lift(y) for y in x.format_spec.values]) if x.format_spec is not None else None)
+                return x
+
+            return ev(ast.JoinedStr(values=[lift(x) for x in e.values]), tmp)
+        return self._no(e)
+
+    @staticmethod
+    def _no(e):
+        raise CannotEval(f"{type(e).__name__}: {short(e, 60)}")
+
+    def index(self, v, k, e):
+        if isinstance(v, (list, tuple, str)):
+            if isinstance(k, bool) or not isinstance(k, int):
+                raise CannotEval(f"{short(e, 60)}: index is not an integer")
+            if not -len(v) <= k < len(v):
+                raise _Raised(f"`{short(e, 60)}` indexes a sequence of length {len(v)} (IndexError)")
+            return v[k]
+        if isinstance(v, dict):
+            try:
+                if k in v:
+                    return v[k]
+            except TypeError:
+                pass
+            # a representative record may lack a key the real records carry: not decided (never reported as the KeyError it would be)
+            raise CannotEval(f"{short(e, 60)}: key {k!r} not in the representative value")
+        raise CannotEval(f"{short(e, 60)}: subscript of {type(v).__name__}")
+
+    def iterate(self, v, node):
+        if isinstance(v, (list, tuple, str, range)):
+            return list(v)
+        if isinstance(v, dict):
+            return list(v.keys())
+        if isinstance(v, (set, frozenset)):
+            try:
+                return sorted(v)
+            except TypeError:
+                return list(v)
+        raise CannotEval(f"{short(node, 60)}: not iterable in the machine ({type(v).__name__})")
+
+    def comp(self, e, env):
+        out = []
+
+        def rec(i, env_):
+            if i == len(e.generators):
+                out.append((self.expr(e.key, env_), self.expr(e.value, env_)) if isinstance(e, ast.DictComp) else self.expr(e.elt, env_))
+                return
+            g = e.generators[i]
+            if g.is_async:
+                raise _Unsup("asynchronous comprehension")
+            for v in self.iterate(self.expr(g.iter, env_), g.iter):
+                env2 = dict(env_)
+                self.assign(g.target, v, env2)
+                if all(self.truth(self.expr(c, env2)) for c in g.ifs):
+                    rec(i + 1, env2)
+
+        rec(0, env)
+        try:
+            return dict(out) if isinstance(e, ast.DictComp) else set(out) if isinstance(e, ast.SetComp) else out
+        except TypeError:
+            raise CannotEval(f"{short(e, 60)}: unhashable element")
+
+    # -- calls -------------------------------------------------------------------------------------------------------------------------------------------------------------------
+    def call(self, e, env):
+        if is_logging_call(e):
+            return None
+        f = e.func
+        d = dotted(f)
+        if d == "isinstance" and len(e.args) == 2 and not e.keywords:
+            ts = e.args[1].elts if isinstance(e.args[1], ast.Tuple) else [e.args[1]]
+            if all(dotted(x) in _M_TYPES for x in ts):
+                v = self.expr(e.args[0], env)
+                return isinstance(v, tuple(_M_TYPES[dotted(x)] for x in ts)) and not (isinstance(v, bool) and not any(dotted(x) in ("bool", "int") for x in ts))
+            raise CannotEval(f"call {short(e, 60)}")
+        args, kwargs = [], {}
+        for a in e.args:
+            if isinstance(a, ast.Starred):
+                args += list(self.iterate(self.expr(a.value, env), a))
+            else:
+                args.append(self.expr(a, env))
+        for k in e.keywords:
+            if k.arg is None:
+                kv = self.expr(k.value, env)
+                if not isinstance(kv, dict) or not all(isinstance(x, str) for x in kv):
+                    raise CannotEval(f"call {short(e, 60)}: ** of a non-dict")
+                kwargs.update(kv)
+            else:
+                kwargs[k.arg] = self.expr(k.value, env)
+        # a method of the analysed class, reached through self / cls
+        if isinstance(f, ast.Attribute) and isinstance(f.value, ast.Name) and f.value.id in ("self", "cls") and f.value.id in env and (f.attr in self.methods or f.attr in self.hooks):
+            return self.invoke(f.attr, args, kwargs, env[f.value.id])
+        if isinstance(f, ast.Name):
+            if f.id in env:
+                if isinstance(env[f.id], _Closure):
+                    return self.apply(env[f.id], args, kwargs)
+                raise CannotEval(f"call {short(e, 60)}: `{f.id}` is not a function value")
+            if f.id in self.hooks:
+                fd = self.functions.get(f.id)
+                return self.hooks[f.id](self.bind(fd, args, kwargs) if fd is not None else {"args": args, "kwargs": kwargs})
+            if f.id in self.functions:
+                return self.apply(_Closure(self.functions[f.id], {}), args, kwargs)
+        if d == "vars" and len(args) == 1 and not kwargs and isinstance(args[0], Record):
+            return args[0].fields
+        if d in _M_PURE and (not isinstance(f, ast.Attribute) or d.split(".")[0] not in env):
+            return self.lib(_M_PURE[d], args, kwargs, e)
+        if isinstance(f, ast.Attribute):
+            recv = self.expr(f.value, env)
+            if isinstance(recv, _Stub) and f.attr in recv.calls:
+                return recv.calls[f.attr](args, kwargs, e)
+            if isinstance(recv, Record) and isinstance(recv.fields.get(f.attr), _Closure):
+                return self.apply(recv.fields[f.attr], args, kwargs)
+            for ty, names in _M_VALUE_METHODS.items():
+                if type(recv) is ty and f.attr in names:
+                    r = self.lib(getattr(recv, f.attr), args, kwargs, e)
+                    return list(r) if ty is dict and f.attr in ("items", "keys", "values") else r
+        raise CannotEval(f"call {short(e, 60)}")
+
+    def lib(self, fn, args, kwargs, e):
+        try:
+            r = fn(*[self.pyfunc(a) for a in args], **{k: self.pyfunc(v) for k, v in kwargs.items()})
+        except (ValueError, ZeroDivisionError, IndexError, statistics.StatisticsError) as x:
+            raise _Raised(f"`{short(e, 70)}` raises {type(x).__name__} ({x})")
+        except (TypeError, KeyError, OverflowError, AttributeError) as x:
+            raise CannotEval(f"call {short(e, 60)}: {type(x).__name__}")
+        if isinstance(r, (map, filter, zip, enumerate, range)) or type(r).__name__ in ("dict_items", "dict_keys", "dict_values", "generator"):
+            r = list(r)
+        return r
+
+    def invoke(self, name, args, kwargs, recv):
+        fd = self.methods.get(name)
+        if name in self.hooks:
+            if fd is None:
+                return self.hooks[name]({"args": args, "kwargs": kwargs})
+            return self.hooks[name](self.bind(fd, args, kwargs, recv=None if self.is_static(fd) else recv))
+        return self.apply(_Closure(fd, {}, recv), args, kwargs)
+
+    @staticmethod
+    def is_static(fd):
+        if getattr(fd, "_c08_static", None) is None and isinstance(fd, source.FUNC_TYPES):
+            fd._c08_static = "staticmethod" in decorator_names(fd)
+        return bool(getattr(fd, "_c08_static", False))
+
+    def bind(self, node, args, kwargs, recv=None):
+        """parameter name -> value for this call, as Python binds them (defaults are evaluated on the module-level names only)."""
+        a = node.args
+        names = [x.arg for x in a.posonlyargs + a.args]
+        out = {}
+        if recv is not None:
+            if not names:
+                raise _Raised("TypeError: method without a receiver parameter")
+            out[names[0]] = recv
+            names = names[1:]
+        if len(args) > len(names) and a.vararg is None:
+            raise _Raised(f"TypeError: {getattr(node, 'name', '<lambda>')}() takes {len(names)} positional argument(s) but {len(args)} were given")
+        out.update(zip(names, args))
+        if a.vararg is not None:
+            out[a.vararg.arg] = tuple(args[len(names):])
+        kwonly = [x.arg for x in a.kwonlyargs]
+        extra = {}
+        for k, v in kwargs.items():
+            if k in out and (k in names or k in kwonly):
+                raise _Raised(f"TypeError: {getattr(node, 'name', '<lambda>')}() got multiple values for argument '{k}'")
+            if k in names or k in kwonly:
+                out[k] = v
+            elif a.kwarg is not None:
+                extra[k] = v
+            else:
+                raise _Raised(f"TypeError: {getattr(node, 'name', '<lambda>')}() got an unexpected keyword argument '{k}'")
+        if a.kwarg is not None:
+            out[a.kwarg.arg] = extra
+        allpos = [x.arg for x in a.posonlyargs + a.args]
+        for nm, dflt in zip(allpos[len(allpos) - len(a.defaults):], a.defaults):
+            if nm not in out:
+                out[nm] = self.expr(dflt, {})
+        for nm, dflt in zip(kwonly, a.kw_defaults):
+            if nm not in out and dflt is not None:
+                out[nm] = self.expr(dflt, {})
+        missing = [nm for nm in allpos + kwonly if nm not in out]
+        if missing:
+            raise _Raised(f"TypeError: {getattr(node, 'name', '<lambda>')}() missing argument(s) {missing}")
+        return out
+
+    def apply(self, c, args, kwargs):
+        self.depth += 1
+        try:
+            if self.depth > 30:
+                raise _Unsup("call depth (recursion?)")
+            node = c.node
+            env = dict(c.env)
+            if isinstance(node, ast.Lambda):
+                env.update(self.bind(node, args, kwargs))
+                return self.expr(node.body, env)
+            if getattr(node, "_c08_plain", None) is None:
+                node._c08_plain = not (isinstance(node, ast.AsyncFunctionDef) or any(isinstance(x, (ast.Yield, ast.YieldFrom, ast.Await)) for x in source.walk_body(node)))
+            if not node._c08_plain:
+                raise _Unsup(f"{node.name} is a generator / coroutine")
+            env.update(self.bind(node, args, kwargs, recv=None if c.recv is None or self.is_static(node) else c.recv))
+            r = self.block(node.body, env)
+            return r[1] if r is not None and r[0] == "return" else None
+        finally:
+            self.depth -= 1
+
+    # -- statements ----------------------------------------------------------------------------------------------------------------------------------------------------------
+    def assign(self, target, v, env):
+        if isinstance(target, ast.Name):
+            env[target.id] = v
+        elif isinstance(target, (ast.Tuple, ast.List)) and not any(isinstance(x, ast.Starred) for x in target.elts):
+            vals = self.iterate(v, target)
+            if len(vals) != len(target.elts):
+                raise _Raised(f"ValueError: cannot unpack {len(vals)} value(s) into `{short(target, 40)}`")
+            for x, y in zip(target.elts, vals):
+                self.assign(x, y, env)
+        elif isinstance(target, ast.Subscript) and not isinstance(target.slice, ast.Slice):
+            box, k = self.expr(target.value, env), self.expr(target.slice, env)
+            if isinstance(box, dict):
+                try:
+                    box[k] = v
+                except TypeError:
+                    raise CannotEval(f"{short(target, 60)}: unhashable key")
+            elif isinstance(box, list) and type(k) is int:
+                if not -len(box) <= k < len(box):
+                    raise _Raised(f"`{short(target, 60)}` assigns past the end of a list of length {len(box)} (IndexError)")
+                box[k] = v
+            else:
+                raise CannotEval(f"{short(target, 60)}: item assignment")
+        elif isinstance(target, ast.Attribute):
+            box = self.expr(target.value, env)
+            if not isinstance(box, Record):
+                raise CannotEval(f"{short(target, 60)}: attribute assignment")
+            box.fields[target.attr] = v
+        else:
+            raise _Unsup(f"assignment target `{short(target, 60)}`")
+
+    def block(self, stmts, env):
+        """None (completed) | ('return', value) | ('break',) | ('continue',)."""
+        for s in stmts:
+            self.tick()
+            if isinstance(s, ast.Expr):
+                if not isinstance(s.value, ast.Constant) and not is_logging_stmt(s):
+                    self.expr(s.value, env)
+            elif isinstance(s, ast.Assign):
+                v = self.expr(s.value, env)
+                for t in s.targets:
+                    self.assign(t, v, env)
+            elif isinstance(s, ast.AnnAssign):
+                if s.value is not None:
+                    self.assign(s.target, self.expr(s.value, env), env)
+            elif isinstance(s, ast.AugAssign):
+                # the target read as an expression
+                cur = self.expr(s.target if isinstance(s.target, ast.Name) else ast.parse(u(s.target), mode="eval").body, env)
+                val = self.expr(s.value, env)
+                if isinstance(cur, list) and isinstance(s.op, ast.Add):
+                    cur.extend(self.iterate(val, s.value))  # in place, as Python does
+                    continue
+                tmp = {"__a": cur, "__b": val}
+                self.assign(s.target, self.expr(ast.BinOp(left=ast.Name(id="__a", ctx=ast.Load()), op=s.op, right=ast.Name(id="__b", ctx=ast.Load())), tmp), env)
+            elif isinstance(s, ast.If):
+                r = self.block(s.body if self.truth(self.expr(s.test, env)) else s.orelse, env)
+                if r is not None:
+                    return r
+            elif isinstance(s, ast.For):
+                broke = False
+                for v in self.iterate(self.expr(s.iter, env), s.iter):
+                    self.assign(s.target, v, env)
+                    r = self.block(s.body, env)
+                    if r is not None and r[0] == "return":
+                        return r
+                    if r is not None and r[0] == "break":
+                        broke = True
+                        break
+                if not broke and s.orelse:
+                    r = self.block(s.orelse, env)
+                    if r is not None:
+                        return r
+            elif isinstance(s, ast.While):
+                broke = False
+                while self.truth(self.expr(s.test, env)):
+                    r = self.block(s.body, env)
+                    if r is not None and r[0] == "return":
+                        return r
+                    if r is not None and r[0] == "break":
+                        broke = True
+                        break
+                if not broke and s.orelse:
+                    r = self.block(s.orelse, env)
+                    if r is not None:
+                        return r
+            elif isinstance(s, ast.Return):
+                return ("return", self.expr(s.value, env) if s.value is not None else None)
+            elif isinstance(s, ast.Raise):
+                raise _Raised(f"raise {short(s.exc, 80) if s.exc is not None else ''}".strip())
+            elif isinstance(s, ast.Break):
+                return ("break",)
+            elif isinstance(s, ast.Continue):
+                return ("continue",)
+            elif isinstance(s, ast.Assert):
+                try:
+                    good = self.truth(self.expr(s.test, env))
+                except CannotEval:
+                    good = True  # an assertion the machine cannot evaluate is not taken as failing
+                if not good:
+                    raise _Raised(f"assert {short(s.test, 80)} fails (AssertionError)")
+            elif isinstance(s, (ast.Pass, ast.Import, ast.ImportFrom)):
+                pass
+            elif isinstance(s, ast.FunctionDef):
+                env[s.name] = _Closure(s, env)
+            else:
+                raise _Unsup(f"statement kind {type(s).__name__} at line {getattr(s, 'lineno', '?')}")
+        return None
+
+    def run(self, func, args=(), kwargs=None, recv=None):
+        """('return', value) | ('raise', text) for one call of func on representative arguments."""
+        try:
+            return ("return", self.apply(_Closure(func, {}, recv), list(args), dict(kwargs or {})))
+        except _WouldRaise as x:
+            return ("raise", str(x))
+        except (TypeError, ValueError, KeyError, AttributeError, IndexError, ZeroDivisionError, RecursionError, OverflowError) as x:
+            # an operation on representative values the machine did not anticipate: the shape is 'not recognised' (never an exception inside the checker, never a verdict)
+            raise CannotEval(f"machine: {type(x).__name__}: {x}"[:160])
+
+
+def _selector_reads(mod, func, mfuncs, seen=None):
+    """(constants, state, undecided) for the free names func reads, followed into the module-level functions it calls: `constants` maps module-level names bound ONCE to a literal
+    to their values, `state` lists names that are re-bound / declared global somewhere in the module (mutable module state) or non-pure library modules, `undecided` names bound
+    once to something that is not a literal (the value cannot be decided here)."""
+    seen = seen if seen is not None else set()
+    seen.add(func.name)
+    a = func.args
+    bound = {x.arg for x in a.posonlyargs + a.args + a.kwonlyargs + ([a.vararg] if a.vararg else []) + ([a.kwarg] if a.kwarg else [])}
+    bound |= {x.id for x in ast.walk(func) if isinstance(x, ast.Name) and isinstance(x.ctx, (ast.Store, ast.Del))}
+    bound |= {y.arg for x in ast.walk(func) if isinstance(x, ast.Lambda) for y in x.args.args}
+    logging_nodes = {id(y) for st in ast.walk(func) if isinstance(st, ast.stmt) and is_logging_stmt(st) for y in ast.walk(st)}
+    free = {x.id for x in ast.walk(func) if isinstance(x, ast.Name) and isinstance(x.ctx, ast.Load) and id(x) not in logging_nodes} - bound
+    if getattr(mod, "_c08_stores", None) is None:
+        declared_global = {nm for x in ast.walk(mod.tree) if isinstance(x, (ast.Global, ast.Nonlocal)) for nm in x.names}
+        stores = {}
+        for x in ast.walk(mod.tree):
+            if isinstance(x, ast.Name) and isinstance(x.ctx, (ast.Store, ast.Del)) and source.enclosing_func(x) is None:
+                stores[x.id] = stores.get(x.id, 0) + 1
+        mod._c08_stores = (declared_global, stores)
+    declared_global, stores = mod._c08_stores
+    consts, state, undecided = {}, set(), set()
+    for nm in sorted(free):
+        if hasattr(builtins, nm):
+            continue
+        if nm in mfuncs:
+            if nm not in seen:
+                c2, s2, u2 = _selector_reads(mod, mfuncs[nm], mfuncs, seen)
+                consts.update(c2)
+                state |= s2
+                undecided |= u2
+            continue
+        if nm in mod.imports:
+            if mod.imports[nm].split(".")[0] not in ("math", "bisect", "statistics", "collections", "operator", "itertools", "functools", "typing", "fractions", "decimal"):
+                state.add(f"{nm} (module {mod.imports[nm]})")
+            continue
+        v = mod.module_constant(nm)
+        if nm in declared_global or stores.get(nm, 0) > 1:
+            state.add(nm)
+        elif v is not None and stores.get(nm, 0) == 1 and source._pure_literal(v):
+            try:
+                consts[nm] = _Machine().expr(v, {})
+            except CannotEval:
+                undecided.add(nm)
+        else:
+            undecided.add(nm)
+    return consts, state, undecided
+
+
+def _record(name, task, operation_type, sample_type, ok=True, value=1.0, unit="ms"):
+    """a representative metrics record as MetricsStore._put_metric builds it."""
+    return {"@timestamp": 1, "relative-time": 1, "race-id": "r", "race-timestamp": "t", "environment": "e", "track": "tr", "challenge": "ch", "car": "c", "name": name, "value": value,
+            "unit": unit, "sample-type": sample_type, "meta": {"success": ok}, "task": task, "operation": "op-" + task, "operation-type": operation_type}
+
+
+def _ref_match(rec, name, task, operation_type, sample_type):
+    """the documented record filter of the store queries: None means 'no restriction' (docs/metrics.rst; MetricsStore.get docstring)."""
+    return rec["name"] == name and (task is None or rec["task"] == task) and (operation_type is None or rec["operation-type"] == operation_type) \
+        and (sample_type is None or rec["sample-type"] == sample_type)
+
+
+_KINDS = [(n_, t_, o_, s_) for n_ in ("service_time", "latency") for t_ in ("A", "B") for o_ in ("X", "Y") for s_ in ("normal", "warmup")]
+# (metric name, task, operation type, sample type): None = no restriction; the last but one selects nothing
+_VALUE_REQUESTS = [("service_time", "A", "X", "normal"), ("service_time", "A", None, "normal"), ("service_time", None, None, None), ("latency", "B", "Y", "normal"),
+                   ("service_time", "A", "X", None), ("service_time", "Z", None, "normal"), ("latency", None, "X", "normal")]
+
+
+def _value_docs():
+    """one record per (metric name, task, operation type, sample type) with distinct values in no particular order, and four more (a 0.0 among them) for the normal samples of
+    service_time / task A / operation type X: every difference in the record filter, a missing sort and a dropped zero show in the statistics."""
+    docs = []
+    more = {3: 0.0, 7: 9.5, 11: 2.0, 15: 7.25}
+    for i, k_ in enumerate(_KINDS):
+        docs.append(_record(*k_, value=50.0 + ((i * 7) % 16) * 2.5 + 0.125 * i))
+        if i in more:
+            docs.append(_record("service_time", "A", "X", "normal", value=more[i]))
+    return docs
+
+
+def _ref_percentile(sorted_values, p):
+    """(rank is integral, value) by the documented definition (docs/metrics.rst / onlinestatbook): rank = p/100 * (n - 1) taken exactly; the value interpolates linearly between
+    the two neighbouring order statistics."""
+    rank = Fraction(str(float(p))) / 100 * (len(sorted_values) - 1)
+    lo, hi = math.floor(rank), math.ceil(rank)
+    return rank == lo, sorted_values[lo] + (sorted_values[hi] - sorted_values[lo]) * float(rank - lo)
+
+
+class _StoreRuns:
+    """runs methods of the in-memory store (its own and the inherited ones) on representative records: `self.docs` is the record list, SampleType the enum read off the module."""
+
+    def __init__(self, mod, cls, mfuncs):
+        self.methods = _mro_methods(mod, cls)
+        self.mfuncs = mfuncs
+        self.enum = _enum_members(mod, "SampleType")
+        self.by_name = {m.fields["name"].lower(): m for m in self.enum.fields.values()}
+        if not {"normal", "warmup"} <= set(self.by_name):
+            raise AnchorMissing("SampleType.Normal / SampleType.Warmup")
+        # by role: the attribute holding the records is the one the store's own methods iterate over / append to
+        votes = {}
+        for f in mod.methods(cls).values():
+            for n in ast.walk(f):
+                srcs = [n.iter] if isinstance(n, (ast.For, ast.comprehension)) else [n.func.value] if isinstance(n, ast.Call) and isinstance(n.func, ast.Attribute) and n.func.attr == "append" else []
+                for x in srcs:
+                    if is_self_attr(x):
+                        votes[x.attr] = votes.get(x.attr, 0) + 1
+        if not votes:
+            raise AnchorMissing(f"attribute of {cls.name} holding the records (self.<attr> iterated by the queries)")
+        self.docs_attr = max(votes, key=votes.get)
+
+    def sample_type(self, lower_name):
+        return None if lower_name is None else self.by_name[lower_name]
+
+    def run(self, func, docs, args, kwargs=None, hooks=None):
+        m = _Machine(methods=self.methods, functions=self.mfuncs, names={"SampleType": self.enum}, hooks=hooks)
+        return m.run(func, args, kwargs, recv=Record(**{self.docs_attr: [dict(d, meta=dict(d["meta"])) for d in docs]}))
+
+
+_QUERY_ROLES = {"get_error_rate": ("task", "operation_type", "sample_type"), "get_one": ("name", "sample_type", "node_name", "task", "mapper"), "get_unit": ("name", "task", "operation_type", "node_name"),
+                "get_percentiles": ("name", "task", "operation_type", "sample_type", "percentiles")}
+_NORMAL_COUNT, _OTHER_COUNT = 150, 1500  # sample counts the stand-in store reports for a Normal-filtered / any other query: they select different percentile sets
+
+
+class _CalcRuns:
+    """runs methods of the results calculator (machine) against a stand-in metrics store that RECORDS every query (bound to the parameters of the MetricsStore method of that name, so
+    keyword / positional / **-passing are all the same) and answers it with values that depend on what was asked for."""
+
+    def __init__(self, mod, calc_cls, store_cls, mfuncs, enum):
+        self.mod, self.cls, self.mfuncs, self.enum = mod, calc_cls, mfuncs, enum
+        self.methods = _mro_methods(mod, calc_cls)
+        self.api = mod.methods(store_cls)
+        self.normal = [m for m in enum.fields.values() if m.fields["name"].lower() == "normal"][0]
+        # by role: the attribute holding the store is the one the MetricsStore-only queries are called on
+        votes = {}
+        for f in self.methods.values():
+            for c in source.calls_in(f):
+                if isinstance(c.func, ast.Attribute) and is_self_attr(c.func.value) and c.func.attr in self.api and c.func.attr.startswith("get_"):
+                    votes[c.func.value.attr] = votes.get(c.func.value.attr, 0) + 1
+        if not votes:
+            raise AnchorMissing("attribute of GlobalStatsCalculator holding the metrics store (self.<attr>.get_stats / get_mean / ...)")
+        self.store_attr = max(votes, key=votes.get)
+
+    def roles(self, q, bound):
+        """role -> value for one query: the roles of the MetricsStore parameters by position (name, task, operation_type, sample_type unless the API says otherwise)."""
+        ps_ = [p_ for p_ in params_of(self.api[q]) if p_ not in ("self", "cls")]
+        return {r: bound.get(p_) for r, p_ in zip(_QUERY_ROLES.get(q, ("name", "task", "operation_type", "sample_type", "node_name", "mapper")), ps_)}
+
+    def run(self, func, args, kwargs=None, answer=None):
+        """(kind, value, recorded queries [(query name, roles, call node)])."""
+        calls = []
+        m = _Machine(methods=self.methods, functions=self.mfuncs, names={"SampleType": self.enum})
+
+        def make(q):
+            def f(a, k, node):
+                r = self.roles(q, m.bind(self.api[q], a, k, recv=True))
+                calls.append((q, r, node))
+                return answer(q, {k_: m.pyfunc(v_) for k_, v_ in r.items()})  # a function value (record mapper) is handed to the answer as a callable
+            return f
+
+        stub = _Stub(calls={q: make(q) for q in self.api if q.startswith("get")})
+        recv = Record(**{self.store_attr: stub, "logger": None, "track": Record(meta_data=None), "challenge": Record(meta_data=None, schedule=[])})
+        kind, val = m.run(func, args, kwargs, recv=recv)
+        return kind, val, calls
+
+    def standard_answer(self, empty=False, zero=False):
+        """answers that encode the request: sample counts differ between a Normal-filtered and any other query, every percentile p is answered with 1000 + p."""
+        def answer(q, r):
+            n = 0 if empty else (_NORMAL_COUNT if r.get("sample_type") is self.normal else _OTHER_COUNT)
+            if q == "get_stats":
+                return None if empty else {"count": n, "min": 0.0 if zero else 1.0, "max": 0.0 if zero else 9.0, "avg": 0.0 if zero else 4.0, "sum": 4.0 * n}
+            if q == "get":
+                return [float(i % 9 + 1) for i in range(n)]
+            if q == "get_raw":
+                return [_record("m", "t", "o", "normal", value=float(i % 9 + 1)) for i in range(min(n, 50))]
+            if q == "get_percentiles":
+                if empty:
+                    return {}
+                try:
+                    return {p_: 1000.0 + float(p_) for p_ in (r.get("percentiles") if r.get("percentiles") is not None else [99, 99.9, 100])}
+                except (TypeError, ValueError):
+                    raise CannotEval(f"percentiles requested: {r.get('percentiles')!r}")
+            if q == "get_mean":
+                return None if empty else (0.0 if zero else 4.0)
+            if q == "get_median":
+                return None if empty else (0.0 if zero else 3.0)
+            if q == "get_unit":
+                return None if empty else "ms"
+            if q == "get_error_rate":
+                return 0.0 if empty else 0.25
+            if q == "get_one":
+                return None if empty else 7.0
+            raise CannotEval(f"store query {q} has no stand-in answer")
+        return answer
+
+
+def _param_roles(caller, method, cdefs):
+    """role of each parameter of a per-task calculator method, derived from what the calculator's main loop passes: `<task>.name` -> task, `<task>.operation.type` -> operation type,
+    a string literal -> metric name (<task> = the variable of the loop the call sits in). {} when no call site is found."""
+    roles = {}
+    for c in source.calls_in(caller):
+        if isinstance(c.func, ast.Attribute) and is_self_attr(c.func, method.name):
+            lv = _loop_var(c)
+            for p_, a in bind_args(c, method).items():
+                t = _il(a, cdefs)
+                r = "task" if lv and t == f"{lv}.name" else "operation_type" if lv and t == f"{lv}.operation.type" else "metric" if isinstance(a, ast.Constant) and isinstance(a.value, str) else None
+                if r is not None and roles.get(p_, r) == r:
+                    roles[p_] = r
+                elif r is not None:
+                    roles[p_] = "?"
+    return roles
+
+
+def _enum_members(mod, cname):
+    """the members of an Enum class as a namespace of _Member values (name, value), read off its class body."""
+    c = mod.get(cname, required=False)
+    if not isinstance(c, ast.ClassDef):
+        raise AnchorMissing(f"enum class {cname}")
+    ms = {}
+    for st in c.body:
+        if isinstance(st, ast.Assign) and len(st.targets) == 1 and isinstance(st.targets[0], ast.Name) and isinstance(st.value, ast.Constant):
+            ms[st.targets[0].id] = _Member(name=st.targets[0].id, value=st.value.value)
+    if not ms:
+        raise AnchorMissing(f"members of enum class {cname}")
+    return Record(**ms)
+
+
+def _mro_methods(mod, cls, seen=None):
+    """name -> def over the class and its bases defined in the same module (the class's own definitions win)."""
+    seen = seen or set()
+    out = {}
+    for b in cls.bases:
+        bc = mod.get(last_attr(b) or "", required=False)
+        if isinstance(bc, ast.ClassDef) and bc.name not in seen:
+            out.update(_mro_methods(mod, bc, seen | {cls.name}))
+    out.update(mod.methods(cls))
+    return out
+
+
+def _module_functions(mod):
+    return {n.name: n for n in mod.tree.body if isinstance(n, ast.FunctionDef)}
+
+
+def _close(a, b):
+    """numbers agree up to floating-point rounding (the property does not decide floating-point behaviour); None only equals None."""
+    if a is None or b is None or isinstance(a, bool) or isinstance(b, bool) or not isinstance(a, _NUM) or not isinstance(b, _NUM):
+        return a is b or (type(a) is type(b) and a == b)
+    return math.isclose(a, b, rel_tol=1e-9, abs_tol=1e-12)
 
 
 # per-shard arrays of the records of one index-time metric (docs/metrics.rst: "per-shard contains the times across primary shards in an array"; telemetry.IndexStats stores
@@ -133,99 +880,55 @@ SHARD_CASES = [
 ]
 
 
-def per_shard_statistics(chk, rid, met, calc_cls):
-    """Every calculator method that queries the `per-shard` arrays of a metric is evaluated (its own tests and expressions, on representative record sets; nothing of the repository
-    is called): it returns for every record set, with min/median/max of ALL per-shard values when there are any and without numbers when there are none."""
+def per_shard_statistics(chk, rid, met, calc, call):
+    """Every calculator method that queries the `per-shard` arrays of a metric is RUN (machine) against the stand-in store on representative record sets (the record mapper the method
+    passes is applied to the records, nothing of the repository is called): it returns for every record set, with min/median/max of ALL per-shard values when there are any and
+    without numbers when there are none. Flattening in a comprehension, a loop or a helper, guard clause or if/else: the same computation."""
     sites = []
-    for f in met.methods(calc_cls).values():
+    for f in calc.methods.values():
         for c in source.calls_in(f):
-            if isinstance(c.func, ast.Attribute) and is_self_attr(c.func.value, "store") and c.func.attr == "get_raw":
-                mp = arg_of(c, 5, "mapper")
-                mp = local_defs(f).get(mp.id, mp) if isinstance(mp, ast.Name) else mp
-                if isinstance(mp, ast.Lambda) and any(isinstance(x, ast.Subscript) and source.is_const(x.slice, "per-shard") for x in ast.walk(mp.body)):
-                    sites.append((f, c, mp))
+            if isinstance(c.func, ast.Attribute) and is_self_attr(c.func.value, calc.store_attr) and c.func.attr in calc.api:
+                for mp in [a_ for a_ in list(c.args) + [k_.value for k_ in c.keywords]]:
+                    mp = local_defs(f).get(mp.id, mp) if isinstance(mp, ast.Name) else mp
+                    if isinstance(mp, ast.Lambda) and any(isinstance(x, ast.Subscript) and source.is_const(x.slice, "per-shard") for x in ast.walk(mp.body)) and f not in sites:
+                        sites.append(f)
     if not sites:
-        raise AnchorMissing("GlobalStatsCalculator method querying the `per-shard` arrays (self.store.get_raw(..., mapper=lambda doc: doc['per-shard']))")
-    RAW = "__raw__"
-    for f, call, mp in sites:
-        mpar = params_of(mp)
-        if len(mpar) != 1:
-            raise AnchorMissing(f"one-parameter record mapper in GlobalStatsCalculator.{f.name}")
-        call_text = u(call)
-
-        class _Raw(ast.NodeTransformer):
-            """the store query is the only thing this evaluation cannot compute: it stands for the representative list of mapped records."""
-
-            def visit_Call(self, n):
-                if u(n) == call_text:
-                    return ast.Name(id=RAW, ctx=ast.Load())
-                return self.generic_visit(n)
-
-        def raw_in(e):
-            return _Raw().visit(source.clone(e))
-
+        raise AnchorMissing("GlobalStatsCalculator method querying the `per-shard` arrays (self.<store>.get_raw(..., mapper=lambda doc: doc['per-shard']))")
+    cdefs = local_defs(call)
+    for f in sites:
+        # entry point: the method the calculator's main routine calls with the metric name (the querying method itself, or the method that reaches it)
+        proles = _param_roles(call, f, cdefs)
+        if sorted(proles.values()) != ["metric"] or len(params_of(f)) - len(f.args.defaults) != 2:
+            chk.unknown(rid, f"{f.name}: not called from __call__ with just a metric name (parameters {params_of(f)[1:]})", f)
+            continue
+        kwargs = {p_: "indexing_total_time" for p_ in proles}
         for label, arrays in SHARD_CASES:
-            recs = [{"name": "indexing_total_time", "value": sum(a), "unit": "ms", "per-shard": list(a)} for a in arrays]
+            recs = [dict(_record("indexing_total_time", "t", "o", "normal", value=sum(a)), **{"per-shard": list(a)}) for a in arrays]
             flat = [w for a in arrays for w in a]
             want = {"min": min(flat), "median": statistics.median(flat), "max": max(flat)} if flat else {"min": None, "median": None, "max": None}
             key = f"{_M}:GlobalStatsCalculator.{f.name}:per-shard:{label}"
             inst = f"{f.name}: per-shard arrays {arrays} -> {'min/median/max of ' + str(sorted(flat)) if flat else 'no per-shard statistics (and no exception)'}"
-            try:
-                env = {RAW: [ev(mp.body, {mpar[0]: r}) for r in recs]}
-            except CannotEval as x:
-                chk.unknown(rid, f"record mapper of {f.name} is not evaluable on a per-shard record: {x}", mp)
-                break
-            raised = []
+            base = calc.standard_answer()
 
-            def on_stmt(s, env_, b):
-                # plain assignments are computed on the representative value; what cannot be computed (another store query: the unit) stays symbolic
-                if isinstance(s, ast.Assign) and len(s.targets) == 1 and isinstance(s.targets[0], ast.Name):
-                    nm = s.targets[0].id
-                    try:
-                        env_[nm] = _sev(raw_in(s.value), env_)
-                        b.pop(nm, None)
-                        return "skip"
-                    except _WouldRaise as x:
-                        raised.append(str(x))
-                        return Outcome("raise", None, node=s)
-                    except CannotEval:
-                        env_.pop(nm, None)
-                # a loop that only collects values into a list (the spelt-out form of the flattening comprehension) is run on the representative value
-                if isinstance(s, ast.For) and not s.orelse and _collect(s, env_):
-                    return "skip"
-                return None
-
-            def atom(n, env_):
-                try:
-                    return bool(_sev(raw_in(n), env_))
-                except CannotEval:
-                    return None
+            def answer(q, r):
+                if q in ("get_raw", "get"):
+                    mapper = r.get("mapper") if q == "get_raw" else (lambda d: d["value"])
+                    return [mapper(d) if mapper is not None else d for d in recs]
+                return base(q, r)
 
             try:
-                out = decide(f.body, atom, env, on_stmt=on_stmt)
-                got = None
-                if out.kind == "return" and out.value is not None and not raised:
-                    rv = raw_in(out.value)
-                    if isinstance(rv, ast.Dict) and all(isinstance(k, ast.Constant) for k in rv.keys):
-                        # a record literal: only the three statistics are interpreted (the unit comes from another store query)
-                        got = {k.value: _sev(v, env) for k, v in zip(rv.keys, rv.values) if k.value in want}
-                    else:
-                        got = _sev(rv, env)
-                elif out.kind in ("return", "fallthrough") and not raised:
-                    got = {}
-                if raised or out.kind == "raise":
-                    ok, detail = False, (raised[0] if raised else out.text()) + ": the exception aborts the whole result calculation"
-                elif got is None or isinstance(got, dict):
-                    got = {k: (got or {}).get(k) for k in want}
-                    ok = got == want and all((got[k] is None) == (want[k] is None) for k in want)
-                    detail = "" if ok else f"result {got}, expected {want}"
-                else:
-                    ok, detail = False, f"result {got!r} is not a statistics record"
-            except _WouldRaise as x:
-                ok, detail = False, f"{x}: the exception aborts the whole result calculation"
-            except (Unsupported, UnknownAtom, CannotEval) as x:
-                chk.unknown(rid, f"{f.name} is not decidable on the per-shard arrays {arrays}: {x}", f)
+                kind, got, _calls = calc.run(f, [], kwargs, answer=answer)
+            except (CannotEval, _Unsup) as x:
+                chk.unknown(rid, f"{f.name} is not evaluable on the per-shard arrays {arrays}: {x}", f)
                 continue
+            if kind == "raise":
+                ok, detail = False, f"{got}: the exception aborts the whole result calculation"
+            elif got is None or isinstance(got, dict):
+                got = {k: (got or {}).get(k) for k in want}
+                ok = all(_close(got[k], want[k]) for k in want)
+                detail = "" if ok else f"result {got}, expected {want}"
+            else:
+                ok, detail = False, f"result {got!r} is not a statistics record"
             chk.ob(rid, inst, ok, f, detail, key=key)
 
 
@@ -234,12 +937,17 @@ def run(chk):
     met = repo.module(_M)
     chk.use(met, "docs/summary_report.rst", "docs/metrics.rst")
     chk.explanation = (
-        "Decides result assembly by shape: every request-metric query of the results calculator passes the Normal sample type and both task and operation type; the sample size that selects "
-        "the percentile set derives from a Normal-filtered query; the percentile selector evaluated over 15 boundary counts is a total, monotone function of the count (ends with 100, "
-        "contains 50 for counts > 1); attribute/key agreement between calculator, results class and op-metrics records; Race.as_dict/from_dict key and positional agreement; the in-memory "
-        "percentile equals the documented linear interpolation (formula identity); stats come from the sorted filtered values; error rate == failed/all over the task's Normal "
-        "service_time records; optional statistics are never tested by truthiness (known finding F11); the per-shard statistics method, evaluated on 8 representative sets of per-shard "
-        "arrays (none / only empty / mixed / several records), returns for each of them, with min/median/max of all per-shard values or without numbers (F34)."
+        "Decides result assembly mostly ON VALUES: a small abstract machine (rules/C08.py: _Machine) walks the AST of the anchored methods and runs them on representative inputs (no "
+        "repository code is imported or called), so helper extraction, hoisted locals, guard clauses, comprehension / loop / table forms are the same computation. The per-task methods of "
+        "the results calculator run against a stand-in store that records every query bound to the MetricsStore API: each request-metric query passes the Normal sample type, the task and "
+        "the operation type, and the percentile set requested is the one the NORMAL sample count selects; the percentile selector run on 15 boundary counts is a total, monotone function "
+        "of the count only (ends with 100, contains 50 for counts > 1), the key encoder is injective over the percentile table; the in-memory store's get_error_rate / get_stats / "
+        "get_percentiles / get_mean / get_median run on representative records (all combinations of metric / task / operation type / sample type, a 0.0 among the values) equal failed/all, "
+        "count/min/max/mean, the documented linear interpolation (also proven as a formula identity where the shape is recognised) and the 50th percentile of exactly the records the request "
+        "selects; the results class round-trips a dictionary of markers through __init__ / as_dict, add_op_metrics stores each parameter under its key and the calculator feeds each key "
+        "from the method and metric of that meaning; tasks() / metrics() agree on the record key; Race.as_dict / from_dict key and parameter agreement; a statistic of 0 survives the "
+        "summary (known finding F11); per-shard statistics on 8 representative sets of per-shard arrays return, with min/median/max of all values or without numbers (F34). A role that "
+        "cannot be located or a shape the machine does not interpret is reported as 'not recognised', never as a falsified obligation."
     )
     chk.not_decided = "floating-point behaviour of the interpolation, the ES-backed store's aggregations, loss-freeness of JSON number round-trips."
     GC = met.cls("GlobalStatsCalculator")
@@ -253,90 +961,128 @@ def run(chk):
     chk.rule("O8.1", "every statistics query issued by the results calculator for request metrics passes the Normal sample type and filters by task and operation type; the sample size that "
              "selects the percentile set comes from a Normal-filtered query", 9,
              "any task with warm-up (warm-up samples enter the results / the percentile set) or a composite task (sub-request records of another operation type enter the error rate)")
-    for mname in ("summary_stats", "single_latency", "error_rate"):
+    # decided on values: each per-task method is RUN (machine) against a stand-in store that records every query bound to the parameters of the MetricsStore API; what matters is what
+    # REACHES the store (sample type, task, operation type), not how the call is spelt, which local holds the value or which helper issues the query
+    mfuncs = _module_functions(met)
+    enum = _enum_members(met, "SampleType")
+    calc = _CalcRuns(met, GC, met.cls("MetricsStore"), mfuncs, enum)
+    call = gm.get("__call__")
+    if call is None:
+        raise AnchorMissing("GlobalStatsCalculator.__call__")
+    cdefs = local_defs(call)
+    T_, OT_ = "task-T", "optype-OT"
+    recorded = {}
+    for mname, metric in (("summary_stats", "throughput"), ("single_latency", "service_time"), ("error_rate", None)):
         f = gm.get(mname)
         if f is None:
             raise AnchorMissing(f"GlobalStatsCalculator.{mname}")
-        fdefs = local_defs(f)
-        fp = params_of(f)
-        for c in source.calls_in(f):
-            if isinstance(c.func, ast.Attribute) and is_self_attr(c.func.value, "store") and c.func.attr in REQUEST_QUERIES:
-                st = arg_of(c, None, "sample_type")
-                stv = source.inline_node(st, fdefs) if st is not None else None
-                ok = stv is not None and u(stv) == "SampleType.Normal"
-                chk.ob("O8.1", f"{mname}: {c.func.attr}(...) passes the Normal sample type", ok, c, f"sample_type={u(st) if st is not None else 'not passed (all sample types)'}", key=f"{_M}:GlobalStatsCalculator.{mname}:{c.func.attr}:normal")
-                tk = arg_of(c, None, "task")
-                ot = arg_of(c, None, "operation_type")
-                ok = tk is not None and u(tk) in fp and ot is not None and u(ot) in fp and "operation_type" in u(ot)
-                chk.ob("O8.1", f"{mname}: {c.func.attr}(...) filters by task and operation type", ok, c, f"task={u(tk) if tk is not None else None} operation_type={u(ot) if ot is not None else 'not passed'}",
-                       key=f"{_M}:GlobalStatsCalculator.{mname}:{c.func.attr}:filters")
+        proles = _param_roles(call, f, cdefs)
+        dflt = set(params_of(f)[len(params_of(f)) - len(f.args.defaults):]) if f.args.defaults else set()
+        kwargs, unresolved = {}, []
+        for p_ in params_of(f)[1:]:
+            r = proles.get(p_)
+            if r in ("task", "operation_type", "metric"):
+                kwargs[p_] = {"task": T_, "operation_type": OT_, "metric": metric or "service_time"}[r]
+            elif p_ not in dflt:
+                unresolved.append(p_)
+        if unresolved or "task" not in proles.values() or "operation_type" not in proles.values():
+            chk.unknown("O8.1", f"{mname}: which parameter takes the task name / the operation type is not derivable from the calls in __call__ (parameters {unresolved or params_of(f)[1:]})", f)
+            continue
+        try:
+            runs = [calc.run(f, [], kwargs, answer=calc.standard_answer()), calc.run(f, [], kwargs, answer=calc.standard_answer(empty=True))]
+        except (CannotEval, _Unsup) as x:
+            chk.unknown("O8.1", f"{mname} is not evaluable against the stand-in store: {x}", f)
+            continue
+        if runs[0][0] == "raise":
+            chk.unknown("O8.1", f"{mname} raises against the stand-in store: {runs[0][1]}", f)
+            continue
+        recorded[mname] = (kwargs, runs)
+        seen_q = {}
+        for kind, val, calls in runs:
+            for q, r, node in calls:
+                if q in REQUEST_QUERIES:
+                    seen_q.setdefault(q, []).append((r, node))
+        if not seen_q:
+            chk.unknown("O8.1", f"{mname}: no request-metric query reaches the store", f)
+        for q, lst in seen_q.items():
+            bad = [(r, n_) for r, n_ in lst if r.get("sample_type") is not calc.normal]
+            st_txt = lambda v: "not passed / None (all sample types)" if v is None else f"SampleType.{v.fields['name']}" if isinstance(v, _Member) else repr(v)
+            chk.ob("O8.1", f"{mname}: {q}(...) passes the Normal sample type", not bad, (bad or lst)[0][1], f"sample_type={st_txt((bad or lst)[0][0].get('sample_type'))}",
+                   key=f"{_M}:GlobalStatsCalculator.{mname}:{q}:normal")
+            bad = [(r, n_) for r, n_ in lst if r.get("task") != T_ or r.get("operation_type") != OT_]
+            r0 = (bad or lst)[0][0]
+            chk.ob("O8.1", f"{mname}: {q}(...) filters by task and operation type", not bad, (bad or lst)[0][1],
+                   f"task={'the task' if r0.get('task') == T_ else repr(r0.get('task'))} operation_type={'the operation type' if r0.get('operation_type') == OT_ else repr(r0.get('operation_type')) + ' (not passed?)'}",
+                   key=f"{_M}:GlobalStatsCalculator.{mname}:{q}:filters")
     sl = gm["single_latency"]
-    sdefs = local_defs(sl)
-    pf = [c for c in source.calls_in(sl) if last_attr(c.func) == "percentiles_for_sample_size"]
-    ok = False
-    detail = "percentiles_for_sample_size not called"
-    if pf:
-        # `stats` is re-bound later in the method: use the binding that reaches the sample size (nearest preceding assignment)
-        sdefs2 = dict(sdefs)
-        ssz = [n for n in walk_body(sl) if isinstance(n, ast.Assign) and u(n.targets[0]) == u(pf[0].args[0])]
-        if ssz:
-            for nm in {x.id for x in ast.walk(ssz[0].value) if isinstance(x, ast.Name)} - set(sdefs2):
-                prev = [n for n in walk_body(sl) if isinstance(n, ast.Assign) and u(n.targets[0]) == nm and n.lineno < ssz[0].lineno]
-                if prev:
-                    sdefs2[nm] = max(prev, key=lambda n: n.lineno).value
-        a = source.inline_node(pf[0].args[0], sdefs2)
-        # stats['count'] if stats else 0 with stats from get_stats(Normal)
-        srcs = [x for x in ast.walk(a) if isinstance(x, ast.Call) and isinstance(x.func, ast.Attribute) and is_self_attr(x.func.value, "store")]
-        ok = bool(srcs) and all(x.func.attr == "get_stats" and u(source.inline_node(arg_of(x, None, "sample_type"), sdefs2)) == "SampleType.Normal" for x in srcs if arg_of(x, None, "sample_type") is not None) \
-            and all(arg_of(x, None, "sample_type") is not None for x in srcs) and "'count'" in u(a)
-        detail = f"sample size = {short(a, 110)}"
-    chk.ob("O8.1", "percentile set selected by the NORMAL sample count", ok, pf[0] if pf else sl, detail)
-    call = gm["__call__"]
-    erc = [c for c in source.calls_in(call) if u(c.func) == "self.error_rate"]
-    cdefs = local_defs(call)
-    ok = False
-    detail = "self.error_rate(...) not called"
-    if erc:
+    if "single_latency" in recorded:
+        kwargs, runs = recorded["single_latency"]
+        asked = [(r.get("percentiles"), n_) for q, r, n_ in runs[0][2] if q == "get_percentiles"]
+        try:
+            sel = {n_: _Machine(functions=mfuncs, names=_selector_reads(met, met.func("percentiles_for_sample_size"), mfuncs)[0]).run(met.func("percentiles_for_sample_size"), [n_])
+                   for n_ in (_NORMAL_COUNT, _OTHER_COUNT)}
+        except (CannotEval, _Unsup) as x:
+            sel = None
+            chk.unknown("O8.1", f"percentile selector not evaluable: {x}", sl)
+        if sel is not None and (not asked or sel[_NORMAL_COUNT][0] != "return"):
+            chk.unknown("O8.1", "single_latency: no percentile query reaches the store for a task with normal samples (the percentile set cannot be compared)", sl)
+        elif sel is not None:
+            want = list(sel[_NORMAL_COUNT][1])
+            bad = [(pl, n_) for pl, n_ in asked if pl is None or list(pl) != want]
+            ok = not bad and runs[1][0] == "return"
+            detail = f"{_NORMAL_COUNT} normal samples (of {_OTHER_COUNT} samples of all types): percentiles requested {list(asked[0][0]) if asked[0][0] is not None else None}"
+            if bad:
+                detail = (f"the store reports {_NORMAL_COUNT} normal samples and {_OTHER_COUNT} samples of all types: requested {list(bad[0][0]) if bad[0][0] is not None else 'the default set'}, "
+                          f"the normal count selects {want}")
+            elif runs[1][0] != "return":
+                detail = f"a task without normal samples: {runs[1][1]}"
+            chk.ob("O8.1", "percentile set selected by the NORMAL sample count", ok, (bad or asked)[0][1], detail, key=f"{_M}:GlobalStatsCalculator.single_latency:percentile-set")
+    erc = [c for c in source.calls_in(call) if isinstance(c.func, ast.Attribute) and is_self_attr(c.func, "error_rate")]
+    if not erc or _loop_var(erc[0]) is None:
+        chk.unknown("O8.1", "the call of self.error_rate(...) inside the loop over the tasks is not located in __call__", call)
+    else:
         # by role: both arguments (followed through the locals that hold them) are read off the task the enclosing loop iterates over
         lv = _loop_var(erc[0])
         ep = params_of(gm["error_rate"])[1:]
         eb = bind_args(erc[0], gm["error_rate"])
         got = [_il(eb.get(p_), cdefs) for p_ in ep]
-        ok = lv is not None and len(ep) == 2 and len(erc[0].args) + len(erc[0].keywords) == 2 and got == [f"{lv}.name", f"{lv}.operation.type"]
-        detail = f"error_rate({', '.join(str(g) for g in got)}) in the loop over `{lv}`"
-    chk.ob("O8.1", "error rate requested for (task name, operation type)", ok, erc[0] if erc else call, detail)
+        # (which parameter is forwarded as the store's task / operation-type filter is decided by the run of error_rate above: its `filters` obligation)
+        ok = len(ep) == 2 and len(erc[0].args) + len(erc[0].keywords) == 2 and sorted(got, key=str) == sorted([f"{lv}.name", f"{lv}.operation.type"]) \
+            and sorted(_param_roles(call, gm["error_rate"], cdefs).values()) == ["operation_type", "task"]
+        chk.ob("O8.1", "error rate requested for (task name, operation type)", ok, erc[0], f"error_rate({', '.join(str(g) for g in got)}) in the loop over `{lv}`",
+               key=f"{_M}:GlobalStatsCalculator.__call__:error_rate-arguments")
 
     # ---- O8.2 percentile selector ------------------------------------------------------------------------------------------------------------------
     chk.rule("O8.2", "the percentile set is a function of the count only: total over [1, inf) (15 boundary counts), every list ends with 100 and contains 50 for counts > 1, sets grow monotonically; count < 1 raises", 17,
              "a sample count at a threshold (10, 100, ...) gets no / the wrong percentile set")
     ps = met.func("percentiles_for_sample_size")
+    if len(params_of(ps)) != 1:
+        raise AnchorMissing("percentiles_for_sample_size(<count>)")
     p0 = params_of(ps)[0]
-    from sa.classes import is_logging_stmt
-    names = {x.id for st_ in ast.walk(ps) if isinstance(st_, ast.stmt) and not is_logging_stmt(st_) and not isinstance(st_, (ast.FunctionDef, ast.If, ast.For, ast.While, ast.With, ast.Try))
-             for x in ast.walk(st_) if isinstance(x, ast.Name)} | {x.id for st_ in ast.walk(ps) if isinstance(st_, (ast.If, ast.While)) for x in ast.walk(st_.test) if isinstance(x, ast.Name)}
-    names -= {p0, "AssertionError"}
-    chk.ob("O8.2", "reads nothing but its parameter", not names, ps, f"other names: {sorted(names)}" if names else "")
+    mfuncs = _module_functions(met)
+    # by data flow: every value the selector (and the module-level helpers it calls) reads is its parameter, a local, a builtin, a pure library function or a module-level literal
+    # constant; a read of module state that is re-bound somewhere is a dependence on something other than the count
+    consts, state, undecided = _selector_reads(met, ps, mfuncs)
+    if undecided:
+        chk.unknown("O8.2", f"selector reads module-level name(s) whose value is not a literal: {sorted(undecided)}", ps)
+    else:
+        chk.ob("O8.2", "reads nothing but its parameter", not state, ps, f"reads mutable module state: {sorted(state)}" if state else "", key=f"{_M}:percentiles_for_sample_size:reads")
     prev = None
     seen_lists = []
     for cnt in [0] + COUNTS:
-        def atom(n, env):
-            try:
-                return bool(ev(n, {p0: cnt}))
-            except CannotEval:
-                return None
-
+        # decided on values: the selector is RUN on the count (if-chain, table scanned in a loop, bisect, helper function: all the same to the machine)
         try:
-            out = decide(ps.body, atom, {})
-        except (Unsupported, UnknownAtom) as e:
-            chk.unknown("O8.2", f"selector is not a decision over comparisons of the count: {e}", ps)
+            kind, val = _Machine(functions=mfuncs, names=consts).run(ps, [cnt])
+        except (_Unsup, CannotEval, Unsupported, UnknownAtom) as e:
+            chk.unknown("O8.2", f"selector is not evaluable on the count {cnt}: {e}", ps)
             break
         if cnt < 1:
-            chk.ob("O8.2", "count < 1 raises", out.kind == "raise", ps, out.text())
+            chk.ob("O8.2", "count < 1 raises", kind == "raise", ps, f"{kind} {val!r}"[:160])
             continue
-        ok = out.kind == "return" and isinstance(out.value, (ast.List, ast.Tuple)) and all(isinstance(e_, ast.Constant) for e_ in out.value.elts)
-        vals = [e_.value for e_ in out.value.elts] if ok else None
+        ok = kind == "return" and isinstance(val, (list, tuple)) and len(val) > 0 and all(isinstance(e_, _NUM) and not isinstance(e_, bool) for e_ in val)
+        vals = list(val) if ok else None
         good = ok and vals[-1] == 100 and vals == sorted(vals) and (cnt == 1 or 50 in vals) and (prev is None or set(prev) <= set(vals))
-        chk.ob("O8.2", f"count {cnt} -> {vals}", bool(good), ps, "" if good else "missing / not ending with 100 / lacks 50 / not monotone", key=f"{_M}:percentiles_for_sample_size:{cnt}")
+        chk.ob("O8.2", f"count {cnt} -> {vals}", bool(good), ps, "" if good else f"{kind} {val!r}: missing / not ending with 100 / lacks 50 / not monotone"[:200], key=f"{_M}:percentiles_for_sample_size:{cnt}")
         prev = vals if ok else prev
         if ok:
             seen_lists.append(vals)
@@ -344,76 +1090,150 @@ def run(chk):
     # the key under which a percentile is stored and looked up must tell the percentiles apart (writer and both reporters use the same encoder)
     enc = met.func("encode_float_key")
     allp = sorted({v for vs in seen_lists for v in vs}) if seen_lists else []
-    er = [n for n in walk_body(enc) if isinstance(n, ast.Return)]
-    if len(er) == 1 and allp:
+    if len(params_of(enc)) == 1 and allp:
         try:
-            keys = {p_: ev(er[0].value, {params_of(enc)[0]: p_}) for p_ in allp}
-            inj = len(set(keys.values())) == len(allp) and all(isinstance(k_, str) and "." not in k_ for k_ in keys.values())
-            clash = sorted(p_ for p_ in allp if list(keys.values()).count(keys[p_]) > 1)
+            econsts, _estate, _eund = _selector_reads(met, enc, mfuncs)
+            runs = {p_: _Machine(functions=mfuncs, names=econsts).run(enc, [p_]) for p_ in allp}
+            raising = {p_: r[1] for p_, r in runs.items() if r[0] == "raise"}
+            keys = {p_: r[1] for p_, r in runs.items() if r[0] == "return"}
+            inj = not raising and len(set(keys.values())) == len(allp) and all(isinstance(k_, str) and "." not in k_ for k_ in keys.values())
+            clash = sorted(p_ for p_ in keys if list(keys.values()).count(keys[p_]) > 1)
             chk.ob("O8.2", "percentile keys are distinct (and dot-free) over the whole percentile table", inj, enc,
-                   f"{keys}" + ("" if inj else f" — {clash} share a key: the later one overwrites the earlier and a percentile is lost / reported with the wrong value"),
+                   f"{keys}" + ("" if inj else (f" — raises for {raising}" if raising else f" — {clash} share a key (or a key is not a dot-free string): the later one overwrites the earlier and a "
+                                                                                         "percentile is lost / reported with the wrong value")),
                    key=f"{_M}:encode_float_key:injective")
-        except CannotEval as e:
+        except (CannotEval, _Unsup) as e:
             chk.unknown("O8.2", f"percentile key encoder is not evaluable over the percentile table: {e}", enc)
     else:
-        chk.unknown("O8.2", "percentile key encoder has no single return expression", enc)
+        chk.unknown("O8.2", "percentile key encoder: no one-parameter function / no percentile table to evaluate it on", enc)
+    # the encoder is used where the keys are written (the results calculator) and where they are looked up (at least one site outside the calculator); a side that cannot be located is
+    # 'not recognised' (the sites may have been folded into a helper), never a falsified obligation
     uses = [c for c in source.package_calls(repo, "encode_float_key")]
-    chk.ob("O8.2", "percentile keys are written and read through the same encoder", len(uses) >= 3, enc, f"{len(uses)} call site(s)")
+    writers = [c for c in uses if source.enclosing_class(c) is GC]
+    readers = [c for c in uses if source.enclosing_class(c) is not GC]
+    if writers and readers:
+        chk.ob("O8.2", "percentile keys are written and read through the same encoder", True, enc, f"{len(writers)} writing site(s) in the calculator, {len(readers)} reading site(s)")
+    else:
+        chk.unknown("O8.2", f"call sites of the percentile key encoder not located on both sides (calculator: {len(writers)}, elsewhere: {len(readers)})", enc)
 
     # ---- O8.3 attribute / key agreement ------------------------------------------------------------------------------------------------------------------
     chk.rule("O8.3", "results class: each attribute is initialised from the key of the same name; as_dict exposes exactly those attributes; every attribute the calculator assigns exists there; "
              "op-metrics records are built from the parameters of the same name and looked up by task name (falling back to the operation only for records without a task)", 55,
              "a metric is written under one name and read back under another (or from another task's record): compare / list show None or the wrong task's numbers")
-    ginit = gsm["__init__"]
-    attrs = {}
-    for n in walk_body(ginit):
-        if isinstance(n, ast.Assign) and is_self_attr(n.targets[0]) and isinstance(n.value, ast.Call) and u(n.value.func) == "self.v":
-            key = n.value.args[1].value if len(n.value.args) > 1 and isinstance(n.value.args[1], ast.Constant) else None
-            attrs[n.targets[0].attr] = key
-            chk.ob("O8.3", f"GlobalStats.{n.targets[0].attr} <- key '{key}'", key == n.targets[0].attr, n, "", key=f"{_M}:GlobalStats.__init__:{n.targets[0].attr}")
+    ginit = gsm.get("__init__")
     ad = gsm.get("as_dict")
-    ok = ad is not None and any(isinstance(n, ast.Return) and u(n.value) in ("self.__dict__", "vars(self)", "dict(self.__dict__)") for n in walk_body(ad))
-    chk.ob("O8.3", "as_dict exposes the instance attributes", ok, ad if ad is not None else GS, "")
+    if ginit is None or ad is None or len(params_of(ginit)) != 2:
+        raise AnchorMissing("GlobalStats.__init__(self, d) / GlobalStats.as_dict")
+    # decided on values: the constructor is RUN (machine) once without a dictionary (=> the declared attributes) and once on a dictionary that stores a distinct marker under every
+    # attribute name; each attribute must then hold the marker of ITS name, and as_dict of that object must give the dictionary back (the write / read-back round trip of race.json)
+    gs_methods = _mro_methods(met, GS)
+    attrs = {}
+    try:
+        o0 = Record()
+        k0, _v0 = _Machine(methods=gs_methods, functions=mfuncs).run(ginit, [None], recv=o0)
+        declared = list(o0.fields) if k0 == "return" else []
+        o1 = Record()
+        markers = {a: f"<{a}>" for a in declared}
+        k1, v1 = _Machine(methods=gs_methods, functions=mfuncs).run(ginit, [dict(markers)], recv=o1)
+        if k0 != "return" or k1 != "return" or not declared:
+            chk.unknown("O8.3", f"GlobalStats.__init__ does not complete on a representative dictionary: {_v0 if k0 != 'return' else v1}", ginit)
+        else:
+            site = {n.targets[0].attr: n for n in walk_body(ginit) if isinstance(n, ast.Assign) and is_self_attr(n.targets[0])}
+            for a in declared:
+                attrs[a] = a
+                got = o1.fields.get(a)
+                other = [k for k, mk in markers.items() if mk == got and k != a] if isinstance(got, str) else []
+                chk.ob("O8.3", f"GlobalStats.{a} <- key '{other[0] if other else a}'", got == markers[a], site.get(a, ginit),
+                       "" if got == markers[a] else (f"initialised from the key '{other[0]}'" if other else f"holds {got!r} although the dictionary stores a value under '{a}' (read from another key?)"),
+                       key=f"{_M}:GlobalStats.__init__:{a}")
+            k2, v2 = _Machine(methods=gs_methods, functions=mfuncs).run(ad, [], recv=Record(**markers))
+            ok = k2 == "return" and isinstance(v2, dict) and v2 == markers
+            chk.ob("O8.3", "as_dict exposes the instance attributes", ok, ad,
+                   "" if ok else f"-> {k2}; missing {sorted(set(markers) - set(v2))[:5]}, extra {sorted(set(v2) - set(markers))[:5]}, changed {sorted(k for k in markers if k in v2 and v2[k] != markers[k])[:5]}"
+                   if isinstance(v2, dict) else f"-> {k2} {v2!r}"[:200], key=f"{_M}:GlobalStats.as_dict:exposes")
+    except (CannotEval, _Unsup) as x:
+        chk.unknown("O8.3", f"GlobalStats.__init__ / as_dict are not evaluable on a representative dictionary: {x}", ginit)
     other_attr = [n for m in gsm.values() if m.name != "__init__" for n in walk_body(m) if isinstance(n, ast.Assign) and is_self_attr(n.targets[0])]
     chk.ob("O8.3", "no attribute created outside __init__ (as_dict == the declared set)", not other_attr, other_attr[0] if other_attr else GS, "")
-    rv = [n for n in walk_body(call) if isinstance(n, ast.Assign) and isinstance(n.targets[0], ast.Name) and isinstance(n.value, ast.Call) and last_attr(n.value.func) == "GlobalStats"]
-    rname = rv[0].targets[0].id if rv else "result"
-    for n in walk_body(call):
-        if isinstance(n, ast.Assign) and isinstance(n.targets[0], ast.Attribute) and u(n.targets[0].value) == rname:
+    rv = [n for n in walk_body(call) if isinstance(n, ast.Assign) and isinstance(n.targets[0], ast.Name) and isinstance(n.value, ast.Call) and last_attr(n.value.func) == GS.name]
+    if not rv:
+        chk.unknown("O8.3", "the results object created by the calculator (<name> = GlobalStats()) is not located in __call__", call)
+    for n in walk_body(call) if rv and attrs else []:
+        if isinstance(n, ast.Assign) and isinstance(n.targets[0], ast.Attribute) and u(n.targets[0].value) == rv[0].targets[0].id:
             a = n.targets[0].attr
             chk.ob("O8.3", f"calculator assigns result.{a}: declared in the results class", a in attrs, n, "" if a in attrs else "written but never read back (not a declared attribute/key)", key=f"{_M}:GlobalStatsCalculator.__call__:assign:{a}")
-    ao = gsm["add_op_metrics"]
-    docd = [n for n in walk_body(ao) if isinstance(n, ast.Dict)]
-    ok = False
-    if docd:
-        pairs = {k.value: u(v) for k, v in zip(docd[0].keys, docd[0].values) if isinstance(k, ast.Constant)}
-        ok = all(k == v for k, v in pairs.items()) and set(pairs) == {"task", "operation", "throughput", "latency", "service_time", "processing_time", "error_rate", "duration"}
-    chk.ob("O8.3", "op-metrics record: each key holds the parameter of the same name", ok, docd[0] if docd else ao, "")
-    aoc = [c for c in source.calls_in(call) if last_attr(c.func) == "add_op_metrics"]
-    ok = False
-    if aoc:
+    ao = gsm.get("add_op_metrics")
+    if ao is None:
+        raise AnchorMissing("GlobalStats.add_op_metrics")
+    # decided on values: add_op_metrics is RUN with a distinct marker per parameter on a freshly constructed results object; the record it stores must carry each of the documented
+    # keys, each holding the marker of exactly one parameter (which one = `key_param`, used below to follow the calculator's arguments into the record)
+    OP_KEYS = ("task", "operation", "throughput", "latency", "service_time", "processing_time", "error_rate", "duration")
+    key_param = {}
+    try:
+        obj = Record()
+        mm = _Machine(methods=gs_methods, functions=mfuncs)
+        k0, v0 = mm.run(ginit, [None], recv=obj)
+        before = {a: list(v) for a, v in obj.fields.items() if isinstance(v, list)}
+        aparams = params_of(ao)[1:]
+        amark = {p_: f"<{p_}>" for p_ in aparams}
+        k1, v1 = mm.run(ao, [], {p_: ({"m": amark[p_]} if i == len(aparams) - 1 and p_ not in OP_KEYS else amark[p_]) for i, p_ in enumerate(aparams)}, recv=obj)
+        new_recs = [r_ for a, v in obj.fields.items() if isinstance(v, list) for r_ in v[len(before.get(a, [])):] if isinstance(r_, dict)]
+        if k0 != "return" or k1 != "return" or len(new_recs) != 1:
+            chk.unknown("O8.3", f"add_op_metrics does not store exactly one record on a freshly constructed results object ({k1} {v1!r}; {len(new_recs)} record(s))"[:240], ao)
+        else:
+            rec = new_recs[0]
+            inv = {mk: p_ for p_, mk in amark.items()}
+            key_param = {k: inv.get(rec.get(k)) if isinstance(rec.get(k), str) else None for k in OP_KEYS}
+            wrong = {k: rec.get(k) for k in OP_KEYS if key_param[k] is None}
+            dup = sorted(k for k in OP_KEYS if key_param[k] is not None and list(key_param.values()).count(key_param[k]) > 1)
+            misnamed = {k: p_ for k, p_ in key_param.items() if p_ is not None and p_ != k and k in aparams}
+            ok = not wrong and not dup and not misnamed
+            chk.ob("O8.3", "op-metrics record: each key holds the parameter of the same name", ok, ao,
+                   "" if ok else (f"key(s) {sorted(wrong)} do not hold a parameter: {wrong}" if wrong else f"keys {dup} hold the same parameter `{key_param[dup[0]]}`" if dup
+                                  else f"key -> parameter: {misnamed} although a parameter of the key's name exists")[:240], key=f"{_M}:GlobalStats.add_op_metrics:record")
+            if wrong or dup:
+                key_param = None  # already reported: the follow-up below has nothing to follow
+    except (CannotEval, _Unsup) as x:
+        chk.unknown("O8.3", f"add_op_metrics is not evaluable with markers: {x}", ao)
+    aoc = [c for c in source.calls_in(call) if isinstance(c.func, ast.Attribute) and c.func.attr == ao.name and rv and u(c.func.value) == rv[0].targets[0].id]
+    lv = _loop_var(aoc[0]) if aoc else None
+    if key_param is None:
+        pass
+    elif not aoc or lv is None or not key_param:
+        chk.unknown("O8.3", "the call <results>.add_op_metrics(...) inside the loop over the tasks is not located in __call__ (or the record keys could not be mapped to parameters)", call)
+    else:
         b = bind_args(aoc[0], ao)
+        # by data flow: record key -> parameter (run above) -> argument at the call (followed through the locals that hold it) -> the calculator method that computed it and the
+        # metric / task / operation type it was computed for (parameter roles of those methods as derived for O8.1)
+        arg = {k: (source.inline_node(b[key_param[k]], cdefs) if b.get(key_param[k]) is not None else None) for k in OP_KEYS}
 
-        def metric_of(e):
-            if isinstance(e, ast.Call) and u(e.func) == "self.summary_stats":
-                return ("summary", e.args[0].value if e.args and isinstance(e.args[0], ast.Constant) else None)
-            if isinstance(e, ast.Call) and u(e.func) == "self.single_latency":
-                mn = arg_of(e, 2, "metric_name")
-                return ("latency", mn.value if isinstance(mn, ast.Constant) else "latency")
-            return ("other", u(e))
+        def computed_by(e):
+            """(calculator method, {role: text}) for an argument that is the result of self.<method>(...)."""
+            if isinstance(e, ast.Call) and isinstance(e.func, ast.Attribute) and is_self_attr(e.func) and e.func.attr in gm:
+                f_ = gm[e.func.attr]
+                pr = _param_roles(call, f_, cdefs)
+                ba = bind_args(e, f_)
+                dflt = dict(zip(params_of(f_)[len(params_of(f_)) - len(f_.args.defaults):], f_.args.defaults)) if f_.args.defaults else {}
+                out = {}
+                for p_, r in pr.items():
+                    v = ba.get(p_, dflt.get(p_))
+                    out[r] = v.value if isinstance(v, ast.Constant) else (u(v) if v is not None else None)
+                return e.func.attr, out
+            return None, {}
 
-        # by role: error rate / duration are the values computed by self.error_rate / self.duration for this task (whatever the locals holding them are called);
-        # task / operation are read off the task the enclosing loop iterates over
-        lv = _loop_var(aoc[0])
-        ern, dun = (source.inline_node(b[k], cdefs) if b.get(k) is not None else None for k in ("error_rate", "duration"))
-        ok = metric_of(b.get("throughput")) == ("summary", "throughput") and metric_of(b.get("latency")) == ("latency", "latency") and metric_of(b.get("service_time")) == ("latency", "service_time") \
-            and metric_of(b.get("processing_time")) == ("latency", "processing_time") and lv is not None \
-            and isinstance(ern, ast.Call) and u(ern.func) == "self.error_rate" and bool(erc) and u(ern) == _il(erc[0], cdefs) \
-            and isinstance(dun, ast.Call) and u(dun.func) == "self.duration" and [u(a) for a in dun.args] == [f"{lv}.name"] and not dun.keywords \
-            and _il(b.get("task"), cdefs) == f"{lv}.name" and _il(b.get("operation"), cdefs) == f"{lv}.operation.name"
-        sd = gm["single_latency"].args.defaults
-        ok = ok and sd and isinstance(sd[-1], ast.Constant) and sd[-1].value == "latency"
-    chk.ob("O8.3", "each op-metrics field is computed for the metric of the same name", ok, aoc[0] if aoc else call, "")
+        problems = []
+        for k, meth, metric in (("throughput", "summary_stats", "throughput"), ("latency", "single_latency", "latency"), ("service_time", "single_latency", "service_time"),
+                                ("processing_time", "single_latency", "processing_time"), ("error_rate", "error_rate", None), ("duration", "duration", None)):
+            m_, ro = computed_by(arg[k])
+            if m_ != meth:
+                problems.append(f"'{k}' <- {short(arg[k], 60) if arg[k] is not None else 'nothing'} (expected the result of self.{meth})")
+            elif metric is not None and ro.get("metric") != metric:
+                problems.append(f"'{k}' <- self.{meth} for metric {ro.get('metric')!r}")
+            elif ro.get("task") != f"{lv}.name" or (meth != "duration" and ro.get("operation_type") != f"{lv}.operation.type"):
+                problems.append(f"'{k}' <- self.{meth} for task {ro.get('task')} / operation type {ro.get('operation_type')}")
+        if _il(b.get(key_param["task"]), cdefs) != f"{lv}.name" or _il(b.get(key_param["operation"]), cdefs) != f"{lv}.operation.name":
+            problems.append(f"'task' <- {_il(b.get(key_param['task']), cdefs)}, 'operation' <- {_il(b.get(key_param['operation']), cdefs)} in the loop over `{lv}`")
+        chk.ob("O8.3", "each op-metrics field is computed for the metric of the same name", not problems, aoc[0], "; ".join(problems)[:300], key=f"{_M}:GlobalStatsCalculator.__call__:op-metrics-fields")
     record_key_agreement(chk, "O8.3", met)
 
     # ---- O8.4 race file agreement ------------------------------------------------------------------------------------------------------------------------
@@ -422,16 +1242,36 @@ def run(chk):
              "a stored race cannot be read back (KeyError) or comes back with fields exchanged")
     RC = met.cls("Race")
     rm = met.methods(RC)
-    asd, frd, rinit = rm["as_dict"], rm["from_dict"], rm["__init__"]
+    asd, frd, rinit = rm.get("as_dict"), rm.get("from_dict"), rm.get("__init__")
+    if asd is None or frd is None or rinit is None or len(params_of(frd)) != 2:
+        raise AnchorMissing("Race.as_dict / Race.from_dict(cls, d) / Race.__init__")
     lit = [n for n in walk_body(asd) if isinstance(n, ast.Dict) and isinstance(source.parent(n), ast.Assign)]
     if not lit:
         raise AnchorMissing("dict literal in Race.as_dict")
     D0 = lit[0]
+    dname = u(source.parent(D0).targets[0])
+
+    def _is_update(x):
+        return isinstance(x, ast.Expr) and isinstance(x.value, ast.Call) and isinstance(x.value.func, ast.Attribute) and x.value.func.attr == "update" and u(x.value.func.value) == dname \
+            and all(k_.arg is not None for k_ in x.value.keywords) and all(isinstance(a_, ast.Dict) and all(isinstance(k_, ast.Constant) for k_ in a_.keys) for a_ in x.value.args)
+
+    def _only_writes(stmts):
+        return all(_is_update(x) or (isinstance(x, ast.Assign) and isinstance(x.targets[0], ast.Subscript) and u(x.targets[0].value) == dname) or (isinstance(x, ast.If) and _only_writes(x.body) and _only_writes(x.orelse))
+                   or (isinstance(x, ast.Expr) and isinstance(x.value, ast.Constant)) or is_logging_stmt(x) or (isinstance(x, ast.Return) and u(x.value) == dname)
+                   or (isinstance(x, ast.Assign) and x.value is D0) for x in stmts)
+
+    # as_dict is "fully modelled" when it consists of the literal, conditional item assignments to it and its return: only then is a key that is NOT found known to be unwritten
+    modelled = _only_writes(source.flat(asd.body)) and not any(k is None for k in D0.keys)
     uncond = {k.value: v for k, v in zip(D0.keys, D0.values) if isinstance(k, ast.Constant)}
     cond = {}
     for n in walk_body(asd):
-        if isinstance(n, ast.Assign) and isinstance(n.targets[0], ast.Subscript) and isinstance(n.targets[0].slice, ast.Constant):
+        if isinstance(n, ast.Assign) and isinstance(n.targets[0], ast.Subscript) and isinstance(n.targets[0].slice, ast.Constant) and u(n.targets[0].value) == dname:
             cond[n.targets[0].slice.value] = n.value
+        elif _is_update(n):  # <dict>.update(key=value, ...) / <dict>.update({"key": value, ...}): item assignments in another spelling
+            for k_ in n.value.keywords:
+                cond[k_.arg] = k_.value
+            for a_ in n.value.args:
+                cond.update({k_.value: v_ for k_, v_ in zip(a_.keys, a_.values)})
     cluster_keys = {k.value: v for k, v in zip(uncond["cluster"].keys, uncond["cluster"].values)} if isinstance(uncond.get("cluster"), ast.Dict) else {}
     ctor = [c for c in source.calls_in(frd) if last_attr(c.func) in ("Race", "cls")]
     if not ctor:
@@ -439,15 +1279,23 @@ def run(chk):
     b = bind_args(ctor[0], rinit)
     fdefs = local_defs(frd)
     dpar = params_of(frd)[1]
-    attr_of_param = {n.value.id: n.targets[0].attr for n in walk_body(rinit) if isinstance(n, ast.Assign) and is_self_attr(n.targets[0]) and isinstance(n.value, ast.Name)}
+    # by data flow: constructor parameter -> the attribute whose initial value is computed from it (and from no other parameter)
+    rpar = set(params_of(rinit)[1:])
+    attr_of_param = {}
+    for n in walk_body(rinit):
+        if isinstance(n, ast.Assign) and is_self_attr(n.targets[0]):
+            used = {x.id for x in ast.walk(n.value) if isinstance(x, ast.Name) and x.id in rpar}
+            if len(used) == 1:
+                attr_of_param.setdefault(used.pop(), n.targets[0].attr)
+    props = {m_.name: m_ for m_ in rm.values() if "property" in decorator_names(m_)}
 
     def written_attr(v):
-        """attribute of self an as_dict value is taken from."""
+        """the attribute of self an as_dict value is computed from (a property is followed into the attribute it reads); None if it is not exactly one."""
+        read = set()
         for x in ast.walk(v):
             if is_self_attr(x):
-                a = x.attr
-                return a[:-5] if a.endswith("_name") and a not in ("environment_name",) else a
-        return None
+                read |= {y.attr for y in ast.walk(props[x.attr]) if is_self_attr(y)} if x.attr in props else {x.attr}
+        return read.pop() if len(read) == 1 else None
 
     for param, e in b.items():
         e2 = source.inline_node(e, fdefs)
@@ -469,124 +1317,116 @@ def run(chk):
             if wsrc is None:
                 chk.adv("O8.4", "from_dict reads 'meta' but as_dict never writes it (race meta data are not part of the results; never persisted in the race file)", frd)
             continue
-        if mandatory:
-            chk.ob("O8.4", f"mandatory key '{key}' written unconditionally", key in uncond, e, "", key=f"{_M}:Race:key:{key}")
+        found = key in uncond if mandatory else wsrc is not None
+        if not found and not modelled and not (mandatory and (key in cond or key in cluster_keys)):
+            chk.unknown("O8.4", f"key '{key}' read by from_dict: as_dict builds the dictionary in a way that is not modelled (no literal item / item assignment for the key found)", e)
+        elif mandatory:
+            chk.ob("O8.4", f"mandatory key '{key}' written unconditionally", found, e, "" if found else ("written only under a condition" if key in cond else "never written"), key=f"{_M}:Race:key:{key}")
         else:
-            chk.ob("O8.4", f"optional key '{key}' written by as_dict", wsrc is not None, e, "", key=f"{_M}:Race:key:{key}")
+            chk.ob("O8.4", f"optional key '{key}' written by as_dict", found, e, "", key=f"{_M}:Race:key:{key}")
         if wsrc is not None:
             wa = written_attr(wsrc)
             ra = attr_of_param.get(param)
-            chk.ob("O8.4", f"key '{key}' round-trips into the attribute it was written from", wa == ra, e, f"written from self.{wa}, read into self.{ra}", key=f"{_M}:Race:roundtrip:{key}")
-    rs = cond.get("results")
-    ok = rs is not None and u(rs) == "self.results.as_dict()"
-    chk.ob("O8.4", "results written from results.as_dict()", ok, rs if rs is not None else asd, "")
+            if wa is None or ra is None:
+                chk.unknown("O8.4", f"key '{key}': the attribute it is written from ({wa}) / the attribute parameter `{param}` initialises ({ra}) is not located", e)
+            else:
+                chk.ob("O8.4", f"key '{key}' round-trips into the attribute it was written from", wa == ra, e, f"written from self.{wa}, read into self.{ra}", key=f"{_M}:Race:roundtrip:{key}")
+    rs = cond.get("results", uncond.get("results"))
+    rattr = attr_of_param.get([p_ for p_, e_ in b.items() if any(source.is_const(x, "results") for x in ast.walk(e_))][0]) if any(source.is_const(x, "results") for e_ in b.values() for x in ast.walk(e_)) else None
+    if rs is None and not modelled:
+        chk.unknown("O8.4", "the value written under 'results' is not located in Race.as_dict", asd)
+    elif rattr is None:
+        chk.unknown("O8.4", "the attribute the 'results' key is read back into is not located", frd)
+    else:
+        # by role: what is stored is the complete as_dict() of the attribute the key is read back into (nothing filtered, nothing renamed)
+        ok = rs is not None and P.is_(rs, f"self.{rattr}.as_dict()")
+        chk.ob("O8.4", "results written from results.as_dict()", ok, rs if rs is not None else asd, "" if ok else (f"'results' <- {short(rs, 120)}" if rs is not None else "'results' is never written"),
+               key=f"{_M}:Race.as_dict:results")
     # Race.as_dict writes the results under a TRUTHINESS test of the results object: that is a presence test only as long as the results class defines neither __len__ nor
     # __bool__ (a results object without per-task rows would otherwise be dropped from race.json although it carries all global metrics)
     gs_cls = met.cls("GlobalStats")
-    truthy_tests = [n for n in walk_body(met.methods(met.cls("Race"))["as_dict"]) if isinstance(n, ast.If) and any(is_self_attr(x, "results") for x in [n.test] + (list(n.test.values) if isinstance(n.test, ast.BoolOp) else []))]
+    truthy_tests = [n for n in walk_body(asd) if isinstance(n, ast.If) and any(is_self_attr(x, "results") for x in [n.test] + (list(n.test.values) if isinstance(n.test, ast.BoolOp) else []))]
     dunder = [m_.name for m_ in gs_cls.body if isinstance(m_, (ast.FunctionDef, ast.AsyncFunctionDef)) and m_.name in ("__len__", "__bool__")]
     chk.ob("O8.4", "the results object is tested for presence only (its class defines no __len__ / __bool__)", not (truthy_tests and dunder), gs_cls,
            "" if not dunder else f"GlobalStats defines {dunder}: `if self.results:` in Race.as_dict is false for a results object without per-task rows, the `results` key is not written and every global metric reads back as None",
            key="esrally/metrics.py:GlobalStats:truthiness-is-presence")
     ts = uncond.get("race-timestamp")
     rt = b.get("race_timestamp")
-    ok = ts is not None and rt is not None and "to_iso8601" in u(ts) and "from_iso8601" in u(rt)
-    chk.ob("O8.4", "timestamp written/read with the inverse ISO-8601 conversions", ok, ts if ts is not None else asd, "")
+    tsp = [p_ for p_, e_ in b.items() if any(source.is_const(x, "race-timestamp") for x in ast.walk(source.inline_node(e_, fdefs)))]
+    rt = source.inline_node(b[tsp[0]], fdefs) if tsp else None
+    if ts is None or rt is None:
+        chk.unknown("O8.4", "the write / the read of the 'race-timestamp' key is not located", asd)
+    else:
+        conv = lambda e_: sorted({last_attr(x.func) for x in ast.walk(e_) if isinstance(x, ast.Call) and last_attr(x.func) not in (None, "get")})
+        ok = conv(ts) == ["to_iso8601"] and conv(rt) == ["from_iso8601"]
+        chk.ob("O8.4", "timestamp written/read with the inverse ISO-8601 conversions", ok, ts, f"written through {conv(ts)}, read through {conv(rt)}", key=f"{_M}:Race:timestamp-conversions")
 
     # ---- O8.6 error rate -------------------------------------------------------------------------------------------------------------------------------------
     chk.rule("O8.6", "in-memory error rate: counts records with success is False over all matching service_time records (task, operation type, sample type) and divides by their number", 4,
              "error rate is not failed/all of the task's requests")
-    ge = im["get_error_rate"]
-    fl = [n for n in walk_body(ge) if isinstance(n, ast.For) and is_self_attr(n.iter, "docs")]
-    if not fl:
-        raise AnchorMissing("loop over docs in get_error_rate")
-    loop = fl[0]
-    dv = loop.target.id if isinstance(loop.target, ast.Name) else None
-    gp_ = params_of(ge)[1:4]
-    if dv is None or len(gp_) != 3:
-        raise AnchorMissing("get_error_rate(self, task, operation_type, sample_type) with a loop `for <name> in self.docs`")
-    rets = [n for n in walk_body(ge) if isinstance(n, ast.Return)]
-    # roles from the data flow, not from the spelling: both counters are incremented in the loop; the error counter is the one incremented under the success test, the other one counts
-    # the matching records (fallback when that shape is absent: numerator / denominator of the returned quotient)
-    incs = [n for n in ast.walk(loop) if isinstance(n, ast.AugAssign) and isinstance(n.target, ast.Name)]
-    cands = list(dict.fromkeys(n.target.id for n in incs))
-    failed_pats = ("V_d['meta']['success'] is False", "not V_d['meta']['success']")
-    err_c = [c for c in cands if any(P.guarded(n, *failed_pats, stop=loop, binds={"d": dv}) is not None for n in incs if n.target.id == c)]
-    err_n = tot_n = None
-    if len(cands) == 2 and len(err_c) == 1:
-        err_n, tot_n = err_c[0], [c for c in cands if c != err_c[0]][0]
-    else:
-        for r in rets:
-            q = P.match(r.value, "V_e / V_t")
-            if q is not None and q["e"] != q["t"]:
-                err_n, tot_n = q["e"], q["t"]
-                break
-    tot = [n for n in incs if n.target.id == tot_n]
-    err = [n for n in incs if n.target.id == err_n]
-    # the record filter is whatever guards the counting of a record: evaluated over representative records and requests instead of being read off its text
-    ffacts = P.fact_nodes(tot[0], stop=loop) if tot else []
-    ok = bool(ffacts)
-    detail = f"{[u(f) for f in ffacts]}"
-    if ok:
-        try:
-            for rec in ({"name": n_, "task": t_, "operation-type": o_, "sample-type": s_, "meta": {"success": True}} for n_ in ("service_time", "latency") for t_ in ("A", "B") for o_ in ("X", "Y") for s_ in ("normal", "warmup")):
-                for q_ot in (None, "X", "Y"):
-                    for q_st in (None, "Normal", "Warmup"):
-                        env = {dv: rec, gp_[0]: "A", gp_[1]: q_ot, gp_[2]: None if q_st is None else Record(name=q_st)}
-                        want = rec["name"] == "service_time" and rec["task"] == "A" and (q_ot is None or rec["operation-type"] == q_ot) and (q_st is None or rec["sample-type"] == q_st.lower())
-                        got = all(bool(ev(f, env)) for f in ffacts)
-                        if got != want and ok:
-                            ok = False
-                            detail = f"record {rec} is {'counted' if got else 'not counted'} for task='A' operation_type={q_ot!r} sample_type={q_st}: {[u(f) for f in ffacts]}"
-        except CannotEval as e:
-            ok = False
-            detail = f"filter not evaluable ({e}): {[u(f) for f in ffacts]}"
-    chk.ob("O8.6", "record filter: service_time of the task / operation type / sample type", ok, source.enclosing(tot[0], ast.If) or ge if tot else ge, detail)
-    ok = False
-    if len(tot) == 1 and len(err) == 1:
-        ft, fe = {u(f) for f in ffacts}, P.fact_nodes(err[0], stop=loop)
-        extra = [f for f in fe if u(f) not in ft]
-        # counted once per matching record; an error is counted under exactly the same filter plus `success is False`
-        ok = all(isinstance(n.op, ast.Add) and source.is_const(n.value, 1) for n in (tot[0], err[0])) and ft <= {u(f) for f in fe} and len(extra) == 1 and P.is_(extra[0], *failed_pats, binds={"d": dv})
-    chk.ob("O8.6", "every matching record counted once; failed ones counted as errors", ok, tot[0] if tot else ge, f"error counter `{err_n}`, record counter `{tot_n}`")
-    # result: decided for concrete counter values (which return is taken), the taken quotient compared symbolically
-    tail = ge.body[ge.body.index(loop) + 1:] if loop in ge.body else []
-    ok = err_n is not None and bool(tail)
-    detail = ""
-    if ok:
-        try:
-            for e_v, t_v in ((0, 0), (0, 1), (1, 1), (0, 4), (1, 4), (4, 4), (2, 7)):
-                env = {err_n: e_v, tot_n: t_v}
+    ge = _need(im, "get_error_rate", "InMemoryMetricsStore")
+    if len(params_of(ge)) != 4:
+        raise AnchorMissing("get_error_rate(self, task, operation_type, sample_type)")
+    # decided on values: the whole method is RUN (machine) on representative record sets and requests, the returned rate is compared with failed / all of the records the request selects.
+    # Counters, filter and quotient are thereby taken by what they compute, whatever they are called and wherever they are computed (hoisted locals, helper methods, comprehensions).
+    store = _StoreRuns(met, IM, mfuncs)
+    requests = [(q_ot, q_st) for q_ot in (None, "X", "Y") for q_st in (None, "normal", "warmup")]
+    kinds = _KINDS
 
-                def atom(n, env_):
+    def rate(docs, q_ot, q_st):
+        kind, val = store.run(ge, docs, ["A", q_ot, store.sample_type(q_st)])
+        if kind == "raise":
+            raise _Raised(val)
+        return val
+
+    def ref_rate(docs, q_ot, q_st):
+        sel = [d for d in docs if _ref_match(d, "service_time", "A", q_ot, q_st)]
+        return (sum(1 for d in sel if d["meta"]["success"] is False) / len(sel)) if sel else 0.0
+
+    def decide_rate(instance, cases, key):
+        """one obligation: for every (record set, request) the returned rate equals the reference; a raise is a falsification, a shape outside the machine 'not recognised'."""
+        try:
+            for label, docs in cases:
+                for q_ot, q_st in requests:
+                    want = ref_rate(docs, q_ot, q_st)
                     try:
-                        return bool(ev(n, env_))
-                    except CannotEval:
-                        return None
+                        got = rate(docs, q_ot, q_st)
+                    except _WouldRaise as x:
+                        chk.ob("O8.6", instance, False, ge, f"{label}, request task='A' operation_type={q_ot!r} sample_type={q_st}: {x}", key=key)
+                        return
+                    if not (isinstance(got, _NUM) and not isinstance(got, bool) and _close(float(got), want)):
+                        chk.ob("O8.6", instance, False, ge, f"{label}, request task='A' operation_type={q_ot!r} sample_type={q_st}: error rate {got!r}, expected {want!r}", key=key)
+                        return
+        except (CannotEval, _Unsup) as x:
+            chk.unknown("O8.6", f"get_error_rate is not evaluable on the representative records ({instance}): {x}", ge)
+            return
+        chk.ob("O8.6", instance, True, ge, "", key=key)
 
-                out = decide(tail, atom, env)
-                good = out.kind == "return" and out.value is not None and (rat_equal(out.value, parse_expr(f"{err_n} / {tot_n}")) if t_v > 0 else ev(out.value, env) == 0)
-                if not good:
-                    ok = False
-                    detail = f"{e_v} failed of {t_v} records -> {out.text()}"
-                    break
-        except (Unsupported, UnknownAtom, CannotEval) as e:
-            ok = False
-            detail = f"result not decidable from the counters: {e}"
-    chk.ob("O8.6", "error rate == errors / total (0.0 without records)", ok, ge, detail)
-    inits = {n.targets[0].id: n.value for n in ge.body if isinstance(n, ast.Assign) and isinstance(n.targets[0], ast.Name)}
-    chk.ob("O8.6", "counters start at 0", err_n is not None and source.is_const(inits.get(err_n), 0) and source.is_const(inits.get(tot_n), 0), ge, "")
+    decide_rate("record filter: service_time of the task / operation type / sample type",
+                [(f"one failed record {k_}", [_record(*k_, ok=False)]) for k_ in kinds], f"{_M}:InMemoryMetricsStore.get_error_rate:filter")
+    mixed = [_record(*k_, ok=(i + j) % 3 != 0) for i, k_ in enumerate(kinds) for j in range(1 + i % 4)]
+    decide_rate("every matching record counted once; failed ones counted as errors",
+                [("mixed records of all kinds", mixed), ("the same records reversed", list(reversed(mixed))),
+                 ("failed records of other kinds only", [_record(*k_, ok=False) for k_ in kinds if k_[:2] != ("service_time", "A")] + [_record("service_time", "A", "X", "normal", ok=True)])],
+                f"{_M}:InMemoryMetricsStore.get_error_rate:counting")
+    decide_rate("error rate == errors / total (0.0 without records)",
+                [("no record", [])] + [(f"{e_v} failed of {t_v} matching records", [_record("service_time", "A", "X", "normal", ok=i >= e_v) for i in range(t_v)])
+                                       for e_v, t_v in ((0, 1), (1, 1), (0, 4), (1, 4), (4, 4), (2, 7))], f"{_M}:InMemoryMetricsStore.get_error_rate:quotient")
+    decide_rate("counters start at 0",
+                [("one failed record", [_record("service_time", "A", "X", "normal", ok=False)]), ("one successful record", [_record("service_time", "A", "X", "normal", ok=True)]),
+                 ("one successful and one failed record", [_record("service_time", "A", "X", "normal", ok=True), _record("service_time", "A", "X", "normal", ok=False)])],
+                f"{_M}:InMemoryMetricsStore.get_error_rate:start")
 
     # ---- O8.7 interpolation ----------------------------------------------------------------------------------------------------------------------------------------
     chk.rule("O8.7", "in-memory percentile == documented linear interpolation: rank == p/100 * (n - 1); exact rank -> sorted[int(rank)]; else lo + (hi - lo) * (rank - floor(rank)) with "
              "lo = sorted[floor(rank)], hi = sorted[ceil(rank)]; the list handed in is sorted(values) of the filtered records", 5,
              "any value set with n >= 2: percentiles not between min and max / p100 != max / p50 != median")
-    pv = im["percentile_value"]
+    pv = _need(im, "percentile_value", "InMemoryMetricsStore")
     if len(params_of(pv)) < 2:
         raise AnchorMissing("percentile_value(sorted_values, percentile)")
     sv, pc = params_of(pv)[-2:]
     pdefs = local_defs(pv)
-    # by role: the rank is the local computed from the percentile and the number of values
+    # (1) formula identity (for ALL values) where the shape is recognised. By role: the rank is the local computed from the percentile and the number of values
     rks = [k for k, v in pdefs.items() if any(P.is_(x, f"len({sv})") for x in ast.walk(v)) and any(isinstance(x, ast.Name) and x.id == pc for x in ast.walk(v))]
     rkn = rks[0] if len(rks) == 1 else None
     nork = {k: v for k, v in pdefs.items() if k != rkn}
@@ -604,108 +1444,266 @@ def run(chk):
         return None
 
     rk = pdefs.get(rkn) if rkn is not None else None
-    ok = rk is not None and rat_equal(rk, parse_expr("P / 100 * (N - 1)"), atom=patom)
-    chk.ob("O8.7", "rank == p/100 * (n - 1)", ok, rk if rk is not None else pv, u(rk) if rk is not None else f"no single local computed from {pc} and len({sv})")
+    sym_rank = rk is not None and rat_equal(rk, parse_expr("P / 100 * (N - 1)"), atom=patom)
     rets = [n for n in walk_body(pv) if isinstance(n, ast.Return)]
     exact = [r for r in rets if rkn is not None and P.guarded(r, "V_r == int(V_r)", "V_r.is_integer()", binds={"r": rkn}) is not None]
-    ok = len(exact) == 1 and P.is_(exact[0].value, f"{sv}[int(V_r)]", binds={"r": rkn})
-    chk.ob("O8.7", "exact rank -> sorted[int(rank)]", ok, exact[0] if exact else pv, "")
+    sym_exact = len(exact) == 1 and P.is_(exact[0].value, f"{sv}[int(V_r)]", binds={"r": rkn})
     inter = [r for r in rets if r not in exact]
-    ok = False
+    sym_inter = False
     if len(inter) == 1 and rkn is not None and inter[0].value is not None:
         e = source.inline_node(inter[0].value, nork)
-        ok = rat_equal(e, parse_expr(f"LO + (HI - LO) * ({rkn} - FLOOR)"), atom=lambda n: {f"S[math.floor({rkn})]": "LO", f"S[math.ceil({rkn})]": "HI"}.get(patom(n) or "", patom(n)))
-    chk.ob("O8.7", "otherwise lo + (hi - lo) * (rank - floor(rank)) over adjacent order statistics", ok, inter[0] if inter else pv, u(inter[0].value) if inter else "")
-    gp = im["get_percentiles"]
-    gdefs = local_defs(gp)
-    pvc = [c for c in source.calls_in(gp) if last_attr(c.func) == "percentile_value"]
-    ok = bool(pvc) and len(pvc[0].args) == 2 and u(source.inline_node(pvc[0].args[0], gdefs)).startswith("sorted(self.get(") and _loop_var(pvc[0]) is not None and u(pvc[0].args[1]) == _loop_var(pvc[0])
-    gcall = [c for c in source.calls_in(gp) if u(c.func) == "self.get"]
-    ok = ok and bool(gcall) and [u(a) for a in gcall[0].args] == params_of(gp)[1:5]
-    chk.ob("O8.7", "percentiles computed on sorted(filtered values) for each requested percentile", ok, pvc[0] if pvc else gp, "")
-    ok = any(isinstance(n, ast.Assign) and isinstance(n.targets[0], ast.Subscript) and u(n.targets[0].slice) == u(pvc[0].args[1]) for n in walk_body(gp)) if pvc and len(pvc[0].args) == 2 else False
-    chk.ob("O8.7", "result keyed by the requested percentile", ok, gp, "")
+        sym_inter = rat_equal(e, parse_expr(f"LO + (HI - LO) * ({rkn} - FLOOR)"), atom=lambda n: {f"S[math.floor({rkn})]": "LO", f"S[math.ceil({rkn})]": "HI"}.get(patom(n) or "", patom(n)))
+    # (2) decided on values: percentile_value is RUN (machine) on representative sorted lists (1 .. 101 values, uneven gaps) and percentiles (integral and fractional ranks) and compared
+    # with the documented definition, up to floating-point rounding. A shape the formula matcher does not recognise is thereby still decided; only if neither applies the verdict is
+    # 'not recognised'.
+    pv_table, pv_err = None, ""
+    try:
+        pv_table = []
+        for n_ in (1, 2, 3, 4, 5, 8, 10, 11, 12, 101):
+            vals = [0.5 * i * i + i + 1.0 for i in range(n_)]
+            for p_ in (0, 0.1, 10, 25, 33.3, 50, "50.0", 75, 90, 99, 99.9, 99.99, 100):
+                is_exact, want = _ref_percentile(vals, p_)
+                kind, got = store.run(pv, [], [list(vals), p_])
+                pv_table.append((n_, p_, is_exact, kind == "return" and isinstance(got, _NUM) and not isinstance(got, bool) and _close(got, want), f"{kind} {got!r}"[:120], want))
+    except (CannotEval, _Unsup) as x:
+        pv_table, pv_err = None, str(x)
+
+    def by_values(instance, sym_ok, select, node, sym_text, key):
+        rows = [r for r in pv_table if select(r)] if pv_table is not None else None
+        bad = [r for r in rows if not r[3]] if rows is not None else []
+        if sym_ok or (rows and not bad):
+            chk.ob("O8.7", instance, True, node, (sym_text + " (formula identity)" if sym_ok else f"decided on {len(rows)} (values, percentile) pairs"), key=key)
+        elif rows:
+            n_, p_, _, _, got, want = bad[0]
+            chk.ob("O8.7", instance, False, node, f"{sym_text + ': ' if sym_text else ''}{n_} sorted values, percentile {p_!r}: {got}, the definition gives {want!r}", key=key)
+        else:
+            chk.unknown("O8.7", f"{instance}: neither the formula shape is recognised nor is percentile_value evaluable on representative values ({pv_err})", node)
+
+    by_values("rank == p/100 * (n - 1)", sym_rank, lambda r: True, rk if rk is not None else pv, u(rk) if rk is not None else "", f"{_M}:InMemoryMetricsStore.percentile_value:rank")
+    by_values("exact rank -> sorted[int(rank)]", sym_exact, lambda r: r[2], exact[0] if exact else pv, "", f"{_M}:InMemoryMetricsStore.percentile_value:exact")
+    by_values("otherwise lo + (hi - lo) * (rank - floor(rank)) over adjacent order statistics", sym_inter, lambda r: not r[2], inter[0] if len(inter) == 1 else pv,
+              u(inter[0].value) if len(inter) == 1 and inter[0].value is not None else "", f"{_M}:InMemoryMetricsStore.percentile_value:interpolation")
+    # get_percentiles, decided on values: RUN on representative records (all combinations of metric name / task / operation type / sample type, distinct unsorted values, a 0.0 among
+    # them) for several requests; each requested percentile must be the documented percentile of the values the request selects — whichever helper fetches, filters and sorts them
+    gp = _need(im, "get_percentiles", "InMemoryMetricsStore")
+    if len(params_of(gp)) != 6:
+        raise AnchorMissing("get_percentiles(self, name, task, operation_type, sample_type, percentiles)")
+    vdocs = _value_docs()
+    wanted_p = [50, 99.9, 100, "50.0", 0, 37.5]
+    pc_rows, pc_err = [], None
+    try:
+        for rq in _VALUE_REQUESTS:
+            F = sorted(d["value"] for d in vdocs if _ref_match(d, *rq))
+            kind, got = store.run(gp, vdocs, [rq[0], rq[1], rq[2], store.sample_type(rq[3]), list(wanted_p)])
+            pc_rows.append((rq, F, kind, got))
+    except (CannotEval, _Unsup) as x:
+        pc_err = str(x)
+    if pc_err is not None:
+        chk.unknown("O8.7", f"get_percentiles is not evaluable on the representative records: {pc_err}", gp)
+    else:
+        ok, detail = True, ""
+        for rq, F, kind, got in pc_rows:
+            if kind == "raise":
+                ok, detail = False, f"request {rq} ({len(F)} matching values): {got}"
+            elif not F:
+                if got is not None and (not hasattr(got, "__len__") or len(got) != 0):
+                    ok, detail = False, f"request {rq} selects no record but the result is {got!r}"[:240]
+            elif not isinstance(got, dict):
+                ok, detail = False, f"request {rq}: result {got!r} is not a mapping"[:240]
+            else:
+                for p_ in wanted_p:
+                    want = _ref_percentile(F, p_)[1]
+                    if p_ in got and not (isinstance(got[p_], _NUM) and _close(got[p_], want)):
+                        ok, detail = False, f"request {rq}: percentile {p_!r} of the {len(F)} matching values {F[:6]}{'...' if len(F) > 6 else ''} is {got[p_]!r}, the definition on the sorted values gives {want!r}"
+                        break
+            if not ok:
+                break
+        chk.ob("O8.7", "percentiles computed on sorted(filtered values) for each requested percentile", ok, gp, detail, key=f"{_M}:InMemoryMetricsStore.get_percentiles:values")
+        ok, detail = True, ""
+        for rq, F, kind, got in pc_rows:
+            if F and isinstance(got, dict) and set(got) != set(wanted_p):
+                ok, detail = False, f"request {rq}: requested {wanted_p}, result keyed by {list(got)}"
+                break
+        chk.ob("O8.7", "result keyed by the requested percentile", ok, gp, detail, key=f"{_M}:InMemoryMetricsStore.get_percentiles:keys")
 
     # ---- O8.8 stats from the raw values ------------------------------------------------------------------------------------------------------------------------------
     chk.rule("O8.8", "count == len, min == first, max == last of the sorted filtered values, avg == mean of the same list; get_mean returns that avg, get_median the 50th percentile; the summary "
              "copies min/mean/median/max under the names of the same meaning", 5, "summary min/max/mean/median disagree with the raw values")
-    gst = im["get_stats"]
-    dd = [n for n in walk_body(gst) if isinstance(n, ast.Dict) and any(source.is_const(k, "count") for k in n.keys if k is not None)]
-    ok = False
-    detail = ""
-    if dd:
-        # by role: every statistic, followed through the locals, is taken from sorted(self.get(<the request>))
-        sd_ = local_defs(gst)
-        d = {k.value: _il(v, sd_) for k, v in zip(dd[0].keys, dd[0].values) if isinstance(k, ast.Constant)}
-        S = f"sorted(self.get({', '.join(params_of(gst)[1:5])}))"
-        ok = d.get("count") == f"len({S})" and d.get("min") in (f"{S}[0]", f"min({S})") and d.get("max") in (f"{S}[-1]", f"max({S})") and d.get("avg") in (f"statistics.mean({S})", f"sum({S}) / len({S})")
-        detail = "" if ok else f"{ {k: d.get(k) for k in ('count', 'min', 'max', 'avg')} }"
-    chk.ob("O8.8", "get_stats: count/min/max/avg of the sorted filtered values", ok, dd[0] if dd else gst, detail)
-    MS = met.cls("MetricsStore")
-    msm = met.methods(MS)
-    gme = msm["get_mean"]
-    # by role: the local holding self.get_stats(<the request>); the result is decided for a present and an absent statistics record
-    sn = [k for k, v in local_defs(gme).items() if u(v) == f"self.get_stats({', '.join(params_of(gme)[1:5])})"]
-    ok = len(sn) == 1
-    detail = "" if ok else "no single local holding self.get_stats(<the request>)"
-    if ok:
-        try:
+    gst = _need(im, "get_stats", "InMemoryMetricsStore")
+    if len(params_of(gst)) != 5:
+        raise AnchorMissing("get_stats(self, name, task, operation_type, sample_type)")
+    # decided on values: get_stats is RUN on the representative records; every statistic must be that of the values the request selects (a 0.0 among them), however they are fetched
+    ok, detail, undecided = True, "", None
+    try:
+        for rq in _VALUE_REQUESTS:
+            F = [d["value"] for d in vdocs if _ref_match(d, *rq)]
+            kind, got = store.run(gst, vdocs, [rq[0], rq[1], rq[2], store.sample_type(rq[3])])
+            if kind == "raise":
+                ok, detail = False, f"request {rq} ({len(F)} matching values): {got}"
+            elif not F:
+                if got and not (isinstance(got, dict) and got.get("count") == 0):
+                    ok, detail = False, f"request {rq} selects no record but the statistics are {got!r}"[:240]
+            elif not isinstance(got, dict):
+                ok, detail = False, f"request {rq} ({len(F)} matching values): result {got!r} is not a statistics record"[:240]
+            else:
+                want = {"count": len(F), "min": min(F), "max": max(F), "avg": statistics.mean(F)}
+                wrong = {k: (got.get(k), w) for k, w in want.items() if not _close(got.get(k), w)}
+                if wrong:
+                    ok, detail = False, f"request {rq}, {len(F)} matching values: " + ", ".join(f"{k} is {g!r}, expected {w!r}" for k, (g, w) in wrong.items())
+            if not ok:
+                break
+    except (CannotEval, _Unsup) as x:
+        undecided = str(x)
+    if undecided is not None:
+        chk.unknown("O8.8", f"get_stats is not evaluable on the representative records: {undecided}", gst)
+    else:
+        chk.ob("O8.8", "get_stats: count/min/max/avg of the sorted filtered values", ok, gst, detail, key=f"{_M}:InMemoryMetricsStore.get_stats:values")
+    gme, gmd = store.methods.get("get_mean"), store.methods.get("get_median")
+    if gme is None or gmd is None or len(params_of(gme)) != 5 or len(params_of(gmd)) != 5 or "get_stats" not in store.methods or "get_percentiles" not in store.methods:
+        raise AnchorMissing("get_mean / get_median(self, name, task, operation_type, sample_type) of the in-memory store")
+    NORMAL = store.sample_type("normal")
+
+    def same_request(bound, fd, rq):
+        """the query was issued for exactly the request (parameters taken by position in the callee's signature, so neither keyword nor positional passing matters)."""
+        ps_ = [p_ for p_ in params_of(fd) if p_ not in ("self", "cls")][:4]
+        return len(ps_) == 4 and all(bound.get(p_) is v or (not isinstance(v, Record) and bound.get(p_) == v) for p_, v in zip(ps_, rq))
+
+    # get_mean, decided on values: RUN with the statistics query answered by the rule (a record for exactly the request, a decoy for any other request): the mean is the avg of the
+    # statistics of the SAME request, 0.0 stays 0.0 and an absent record gives None
+    ok, detail, undecided = True, "", None
+    try:
+        for rq in (("service_time", "A", "X", NORMAL), ("latency", "B", None, None)):
             for sval, want in (({"count": 3, "min": 1.0, "max": 9.0, "avg": 4.5, "sum": 13.5}, 4.5), ({"count": 1, "min": 0.0, "max": 0.0, "avg": 0.0, "sum": 0.0}, 0.0), (None, None)):
-                env = {sn[0]: sval}
-
-                def atom(n, env_):
-                    try:
-                        return bool(ev(n, env_))
-                    except CannotEval:
-                        return None
-
-                out = decide(gme.body, atom, env)
-                got = ev(out.value, env) if out.kind == "return" and out.value is not None else None
-                if out.kind not in ("return", "fallthrough") or got != want or (got is None) != (want is None):
-                    ok = False
-                    detail = f"statistics {sval} -> {out.text()}"
+                hook = lambda b, rq=rq, sval=sval: (dict(sval) if sval is not None else None) if same_request(b, store.methods["get_stats"], rq) else {"count": 7, "min": -1.0, "max": -1.0, "avg": -1.0, "sum": -7.0}
+                kind, got = store.run(gme, [], list(rq), hooks={"get_stats": hook})
+                if kind == "raise" or not _close(got, want):
+                    ok, detail = False, f"request {rq[:3] + (getattr(rq[3], 'fields', {}).get('name'),)}, statistics of that request {sval} -> {kind} {got!r}, expected {want!r}"
                     break
-        except (Unsupported, UnknownAtom, CannotEval) as e:
-            ok = False
-            detail = f"result not decidable from the statistics record: {e}"
-    chk.ob("O8.8", "get_mean == avg of the same filtered values", ok, gme, detail)
-    gmd = msm["get_median"]
-    md = local_defs(gmd)
-    ok = False
-    for c in walk_body(gmd):
-        if isinstance(c, ast.Call) and u(c.func) == "self.get_percentiles" and [u(a) for a in c.args[:4]] == params_of(gmd)[1:5]:
-            # by role: the one percentile requested (followed through the local that holds it) is the 50th
-            pl = arg_of(c, 4, "percentiles")
-            pl = source.inline_node(pl, md) if pl is not None else None
-            ok = ok or (isinstance(pl, (ast.List, ast.Tuple)) and len(pl.elts) == 1 and isinstance(pl.elts[0], ast.Constant) and str(pl.elts[0].value) in ("50.0", "50"))
-    chk.ob("O8.8", "get_median == 50th percentile of the same filtered values", ok, gmd, "")
+            if not ok:
+                break
+    except (CannotEval, _Unsup) as x:
+        undecided = str(x)
+    if undecided is not None:
+        chk.unknown("O8.8", f"get_mean is not evaluable on a representative statistics record: {undecided}", gme)
+    else:
+        chk.ob("O8.8", "get_mean == avg of the same filtered values", ok, gme, detail, key=f"{_M}:MetricsStore.get_mean:values")
+    # get_median, likewise: the percentile query is answered by the rule with a value that encodes the percentile asked for; the median is the 50th percentile of the SAME request and
+    # None when there are no percentiles
+    ok, detail, undecided = True, "", None
+
+    def pct_answer(b, rq, empty):
+        fd = store.methods["get_percentiles"]
+        plist = b.get(params_of(fd)[5]) if len(params_of(fd)) > 5 else None
+        try:
+            full = {p_: 1000.0 + float(p_) for p_ in (plist or [])}
+        except (TypeError, ValueError):
+            raise CannotEval(f"percentiles requested by get_median: {plist!r}")
+        return ({} if empty else full) if same_request(b, fd, rq) else {p_: -1.0 for p_ in full}
+
+    try:
+        for rq in (("service_time", "A", "X", NORMAL), ("latency", "B", None, None)):
+            for empty, want in ((False, 1050.0), (True, None)):
+                kind, got = store.run(gmd, [], list(rq), hooks={"get_percentiles": lambda b, rq=rq, empty=empty: pct_answer(b, rq, empty)})
+                if kind == "raise" or not _close(got, want):
+                    ok, detail = False, (f"request {rq[:3] + (getattr(rq[3], 'fields', {}).get('name'),)}, {'no percentiles' if empty else 'percentile p answered with 1000 + p'} -> {kind} {got!r}, "
+                                         f"expected {want!r} (the 50th percentile of the same request)")
+                    break
+            if not ok:
+                break
+    except (CannotEval, _Unsup) as x:
+        undecided = str(x)
+    if undecided is not None:
+        chk.unknown("O8.8", f"get_median is not evaluable with a representative percentile answer: {undecided}", gmd)
+    else:
+        chk.ob("O8.8", "get_median == 50th percentile of the same filtered values", ok, gmd, detail, key=f"{_M}:MetricsStore.get_median:values")
+    # end to end on the representative records (property text: p50 = median, mean agrees with the raw values): no query answered by the rule
+    ok, detail, undecided = True, "", None
+    try:
+        for rq in _VALUE_REQUESTS:
+            F = [d["value"] for d in vdocs if _ref_match(d, *rq)]
+            for fn, want in ((gme, statistics.mean(F) if F else None), (gmd, statistics.median(F) if F else None)):
+                kind, got = store.run(fn, vdocs, [rq[0], rq[1], rq[2], store.sample_type(rq[3])])
+                if kind == "raise" or not _close(got, want):
+                    ok, detail = False, f"{fn.name}{rq} over {len(F)} matching values -> {kind} {got!r}, expected {want!r}"
+                    break
+            if not ok:
+                break
+    except (CannotEval, _Unsup) as x:
+        undecided = str(x)
+    if undecided is not None:
+        chk.unknown("O8.8", f"get_mean / get_median are not evaluable end to end on the representative records: {undecided}", gme)
+    else:
+        chk.ob("O8.8", "mean / median of the in-memory store == mean / median of the selected raw values (end to end)", ok, gmd, detail, key=f"{_M}:InMemoryMetricsStore:mean-median:values")
     ss = gm["summary_stats"]
-    ssd = local_defs(ss)
-    dd = [n for n in walk_body(ss) if isinstance(n, ast.Dict) and not all(isinstance(v, ast.Constant) and v.value is None for k, v in zip(n.keys, n.values) if getattr(k, "value", None) != "unit")]
-    ok = False
-    qcalls = []
-    if dd:
-        # by role: each reported statistic, followed through the local that holds it, is the result of the store query of the same meaning
-        dn = {k.value: source.inline_node(v, ssd) for k, v in zip(dd[0].keys, dd[0].values) if isinstance(k, ast.Constant)}
+    # decided on values: summary_stats is RUN against the stand-in store, whose answers differ per query and per metric asked for; the summary must carry, under each name, the
+    # statistic of that meaning of the REQUESTED metric (queries for another metric are answered with decoys)
+    sroles = _param_roles(call, ss, cdefs)
+    skw = {p_: {"task": T_, "operation_type": OT_, "metric": "throughput"}[r] for p_, r in sroles.items() if r in ("task", "operation_type", "metric")}
+    if sorted(sroles.values()) != ["metric", "operation_type", "task"] or len(params_of(ss)) != 4:
+        chk.unknown("O8.8", "summary_stats: which parameter takes the metric name / task name / operation type is not derivable from the call in __call__", ss)
+    else:
+        def summary_answer(q, r):
+            right = r.get("name") == "throughput"
+            if q == "get_stats":
+                return {"count": 12, "min": 1.0, "max": 9.0, "avg": 4.0, "sum": 48.0} if right else {"count": 5, "min": -1.0, "max": -9.0, "avg": -4.0, "sum": -20.0}
+            if q in ("get_mean", "get_median", "get_unit"):
+                return {"get_mean": 4.0, "get_median": 3.0, "get_unit": "ops/s"}[q] if right else {"get_mean": -4.0, "get_median": -3.0, "get_unit": "??"}[q]
+            return calc.standard_answer()(q, r)
 
-        def origin(e):
-            if isinstance(e, ast.Subscript) and isinstance(e.slice, ast.Constant) and isinstance(e.value, ast.Call) and isinstance(e.value.func, ast.Attribute) and is_self_attr(e.value.func.value, "store"):
-                return f"{e.value.func.attr}[{e.slice.value!r}]"
-            if isinstance(e, ast.Call) and isinstance(e.func, ast.Attribute) and is_self_attr(e.func.value, "store"):
-                return e.func.attr
-            return u(e)
-
-        ok = {k: origin(v) for k, v in dn.items()} == {"min": "get_stats['min']", "mean": "get_mean", "median": "get_median", "max": "get_stats['max']", "unit": "get_unit"}
-        qcalls = [x for k, v in dn.items() if k in ("min", "mean", "median", "max") for x in ast.walk(v) if isinstance(x, ast.Call) and isinstance(x.func, ast.Attribute) and is_self_attr(x.func.value, "store")]
-    chk.ob("O8.8", "summary copies min/mean/median/max from the statistics of the same meaning", ok, dd[0] if dd else ss, "")
-    ok = {c.func.attr for c in qcalls} >= {"get_mean", "get_median", "get_stats"} and all(c.args and u(c.args[0]) == params_of(ss)[1] for c in qcalls)
-    chk.ob("O8.8", "all summary statistics are of the requested metric", ok, ss, "")
+        try:
+            kind, got, calls = calc.run(ss, [], skw, answer=summary_answer)
+            kind2, got2, calls2 = calc.run(ss, [], skw, answer=lambda q, r: summary_answer(q, dict(r, name="throughput")))
+        except (CannotEval, _Unsup) as x:
+            kind = None
+            chk.unknown("O8.8", f"summary_stats is not evaluable against the stand-in store: {x}", ss)
+        if kind is not None:
+            want = {"min": 1.0, "mean": 4.0, "median": 3.0, "max": 9.0, "unit": "ops/s"}
+            # the second run answers every query as if it were for the requested metric: it isolates "copied under the name of the same meaning" from "asked for the right metric"
+            ok = kind2 == "return" and isinstance(got2, dict) and all(k in got2 and _close(got2[k], w) for k, w in want.items())
+            chk.ob("O8.8", "summary copies min/mean/median/max from the statistics of the same meaning", ok, ss,
+                   "" if ok else f"store answers min 1.0, mean 4.0, median 3.0, max 9.0, unit 'ops/s' -> {kind2} {got2!r}"[:260], key=f"{_M}:GlobalStatsCalculator.summary_stats:copies")
+            stat_q = [(q, r, n_) for q, r, n_ in calls if q in ("get_stats", "get_mean", "get_median")]
+            if {q for q, _, _ in stat_q} >= {"get_stats", "get_mean", "get_median"} or (kind == "return" and isinstance(got, dict) and all(k in got and _close(got[k], w) for k, w in want.items())):
+                bad = [(q, r, n_) for q, r, n_ in stat_q if r.get("name") != "throughput"]
+                ok = not bad and kind == "return" and isinstance(got, dict) and all(k in got and _close(got[k], w) for k, w in want.items())
+                chk.ob("O8.8", "all summary statistics are of the requested metric", ok, bad[0][2] if bad else ss,
+                       (f"{bad[0][0]} is asked for metric {bad[0][1].get('name')!r} instead of the requested one" if bad else "" if ok else f"-> {kind} {got!r}"[:260]),
+                       key=f"{_M}:GlobalStatsCalculator.summary_stats:requested-metric")
+            else:
+                chk.unknown("O8.8", "summary_stats: the mean / median / statistics queries are not all located (queries seen: " + ", ".join(sorted({q for q, _, _ in calls})) + ")", ss)
 
     # ---- O8.9 no truthiness on optional numerics ------------------------------------------------------------------------------------------------------------------------
     chk.rule("O8.9", "values returned by the store's mean/median queries (floats or None, 0 is a legitimate statistic) are tested with `is (not) None`, never by truthiness", 1,
              "a task whose normal samples are all 0 (e.g. every request failed under on-error=continue => 0 ops): the summary reports None for min/mean/median/max instead of 0")
     found = 0
+    # decided on values for the per-task methods: the method is RUN against the stand-in store with ONE optional statistic answered 0.0 (all others positive); the 0.0 must arrive in
+    # the result under that statistic's name, whatever tests it passed on the way (the finding is keyed by the ROLE of the statistic: get_mean -> mean)
+    decided = set()
+    for mname in ("summary_stats", "single_latency"):
+        if mname not in recorded:
+            continue
+        kwargs = recorded[mname][0]
+        try:
+            verdicts = []
+            for role, q in (("mean", "get_mean"), ("median", "get_median")):
+                base = calc.standard_answer()
+                kind, got, calls_ = calc.run(gm[mname], [], kwargs, answer=lambda q_, r, q=q, base=base: 0.0 if q_ == q else base(q_, r))
+                if q not in {c_[0] for c_ in calls_}:
+                    continue  # this method does not ask for that statistic
+                if kind != "return" or not isinstance(got, dict):
+                    raise CannotEval(f"{mname} with {q} answered 0.0 -> {kind} {got!r}"[:160])
+                verdicts.append((role, got.get(role) is not None and _close(got.get(role), 0.0), got))
+        except (CannotEval, _Unsup):
+            continue  # not evaluable: the structural scan below covers the method
+        decided.add(mname)
+        for role, ok, got in verdicts:
+            found += 1
+            chk.ob("O8.9", f"{mname}: a {role} of 0 is reported as 0 (the optional statistic `{role}` is not tested by truthiness)", ok, gm[mname],
+                   "" if ok else f"the store answers {role} = 0.0 (every other statistic positive) and the summary carries {role} = {got.get(role)!r}: a value of 0 is treated as missing",
+                   key=f"{_M}:GlobalStatsCalculator.{mname}:truthiness:{role}")
     for mname, f in gm.items():
+        if mname in decided:
+            continue
         fdefs = local_defs(f)
         # the finding is keyed by the ROLE of the tested local (the query it holds: get_mean -> mean), not by its spelling
         opt = {k: v.func.attr.removeprefix("get_") for k, v in fdefs.items() if isinstance(v, ast.Call) and isinstance(v.func, ast.Attribute) and v.func.attr in ("get_mean", "get_median", "get_one", "median")}
@@ -737,10 +1735,35 @@ def run(chk):
              "evaluated only when the flattened list is non-empty)", len(SHARD_CASES),
              "a race whose only index-time records carry an empty `per-shard` array (shard level of the index-stats response not available; IndexStats stores [] then): min() of an "
              "empty list raises ValueError in the results calculator, no summary is computed and race.json keeps no results at all (F34)")
-    per_shard_statistics(chk, "O8.10", met, GC)
+    per_shard_statistics(chk, "O8.10", met, calc, call)
 
 
 from sa.selftest import V  # noqa: E402
+
+# source fragments of the pinned tree the round-2 variants replace
+_GET_STATS_HEAD = "        values = self.get(name, task, operation_type, sample_type)\n        sorted_values = sorted(values)\n"
+_SELECTOR_CHAIN = ("    elif 1 < sample_size < 10:\n        return [50, 100]\n    elif 10 <= sample_size < 100:\n        return [50, 90, 100]\n    elif 100 <= sample_size < 1000:\n        return [50, 90, 99, 100]\n"
+                   "    elif 1000 <= sample_size < 10000:\n        return [50, 90, 99, 99.9, 100]\n    else:\n        return [50, 90, 99, 99.9, 99.99, 100]\n")
+_ER_LOOP = ("        error = 0\n        total_count = 0\n        for doc in self.docs:\n            # we can use any request metrics record (i.e. service time or latency)\n            if (\n"
+            "                doc[\"name\"] == \"service_time\"\n                and doc[\"task\"] == task\n                and (operation_type is None or doc[\"operation-type\"] == operation_type)\n"
+            "                and (sample_type is None or doc[\"sample-type\"] == sample_type.name.lower())\n            ):\n                total_count += 1\n"
+            "                if doc[\"meta\"][\"success\"] is False:\n                    error += 1\n")
+_ER_TAIL = "        if total_count > 0:\n            return error / total_count\n        else:\n            return 0.0\n"
+_PV_BODY = ("        rank = float(percentile) / 100.0 * (len(sorted_values) - 1)\n        if rank == int(rank):\n            return sorted_values[int(rank)]\n        else:\n            lr = math.floor(rank)\n"
+            "            lr_next = math.ceil(rank)\n            fr = rank - lr\n            lower_score = sorted_values[lr]\n            higher_score = sorted_values[lr_next]\n"
+            "            return lower_score + (higher_score - lower_score) * fr\n")
+_SUMMARY_QUERIES = ("        mean = self.store.get_mean(metric_name, task=task_name, operation_type=operation_type, sample_type=SampleType.Normal)\n"
+                    "        median = self.store.get_median(metric_name, task=task_name, operation_type=operation_type, sample_type=SampleType.Normal)\n"
+                    "        unit = self.store.get_unit(metric_name, task=task_name, operation_type=operation_type)\n"
+                    "        stats = self.store.get_stats(metric_name, task=task_name, operation_type=operation_type, sample_type=SampleType.Normal)\n")
+_OP_DOC = ("        doc = {\n            \"task\": task,\n            \"operation\": operation,\n            \"throughput\": throughput,\n            \"latency\": latency,\n            \"service_time\": service_time,\n"
+           "            \"processing_time\": processing_time,\n            \"error_rate\": error_rate,\n            \"duration\": duration,\n        }\n")
+_ADD_CALL = ("                    result.add_op_metrics(\n                        t,\n                        task.operation.name,\n                        self.summary_stats(\"throughput\", t, op_type),\n"
+             "                        self.single_latency(t, op_type),\n                        self.single_latency(t, op_type, metric_name=\"service_time\"),\n"
+             "                        self.single_latency(t, op_type, metric_name=\"processing_time\"),\n                        error_rate,\n                        duration,\n"
+             "                        self.merge(self.track.meta_data, self.challenge.meta_data, task.operation.meta_data, task.meta_data),\n")
+_KEY_METHODS = ("        return [v.get(\"task\", v[\"operation\"]) for v in self.op_metrics]\n\n    def metrics(self, task):\n        # ensure we can read race.json files before Rally 0.8.0\n"
+                "        for r in self.op_metrics:\n            if r.get(\"task\", r[\"operation\"]) == task:\n                return r\n        return None\n")
 
 VARIANTS = [
     V("sample type dropped at one query", "break", _M, "        mean = self.store.get_mean(metric_name, task=task_name, operation_type=operation_type, sample_type=SampleType.Normal)", "        mean = self.store.get_mean(metric_name, task=task_name, operation_type=operation_type)", "O8.1"),
@@ -776,4 +1799,101 @@ VARIANTS = [
     V("F34 respelled: guard clause and order statistics of the sorted values", "keep", _M,
       "        if flat_values:\n            return {\n                \"min\": min(flat_values),\n                \"median\": statistics.median(flat_values),\n                \"max\": max(flat_values),",
       "        if not any(True for v in values for w in v):\n            return {}\n        ordered = sorted(flat_values)\n        if ordered:\n            return {\n                \"min\": ordered[0],\n                \"median\": statistics.median(ordered),\n                \"max\": ordered[-1],"),
+    # ---- hardening round 2: realistic refactorings of the anchored code (decided by running the extracted code on representative values) and defects placed INSIDE the refactored shape
+    [V("sorted-values helper extracted from get_stats / get_percentiles (benign b1 shape)", "keep", _M, _GET_STATS_HEAD, "        sorted_values = self._sorted_values(name, task, operation_type, sample_type)\n"),
+     V("", "keep", _M, "    def _get(self, name, task, operation_type, sample_type, node_name, mapper):\n        return [",
+       "    def _sorted_values(self, name, task, operation_type, sample_type):\n        return sorted(self.get(name, task, operation_type, sample_type))\n\n"
+       "    def _get(self, name, task, operation_type, sample_type, node_name, mapper):\n        return [")],
+    [V("extracted sorted-values helper forgets the sample type", "break", _M, _GET_STATS_HEAD, "        sorted_values = self._sorted_values(name, task, operation_type, sample_type)\n", "O8.8"),
+     V("", "break", _M, "    def _get(self, name, task, operation_type, sample_type, node_name, mapper):\n        return [",
+       "    def _sorted_values(self, name, task, operation_type, sample_type):\n        return sorted(self.get(name, task, operation_type))\n\n"
+       "    def _get(self, name, task, operation_type, sample_type, node_name, mapper):\n        return [")],
+    V("get_percentiles without the sort", "break", _M, "            sorted_values = sorted(values)\n            for percentile in percentiles:", "            sorted_values = values\n            for percentile in percentiles:", "O8.7"),
+    V("get_percentiles as a comprehension over the requested percentiles", "keep", _M,
+      "        result = collections.OrderedDict()\n        values = self.get(name, task, operation_type, sample_type)\n        if len(values) > 0:\n            sorted_values = sorted(values)\n"
+      "            for percentile in percentiles:\n                result[percentile] = self.percentile_value(sorted_values, percentile)\n        return result\n",
+      "        ordered = sorted(self.get(name, task, operation_type, sample_type))\n        if not ordered:\n            return collections.OrderedDict()\n"
+      "        return collections.OrderedDict((p, self.percentile_value(ordered, p)) for p in percentiles)\n"),
+    V("selector as a table scanned in a loop (benign b2 shape)", "keep", _M, _SELECTOR_CHAIN,
+      "    table = ((10, (50, 100)), (100, (50, 90, 100)), (1000, (50, 90, 99, 100)), (10000, (50, 90, 99, 99.9, 100)))\n    for upper_bound, percentiles in table:\n"
+      "        if sample_size < upper_bound:\n            return list(percentiles)\n    return [50, 90, 99, 99.9, 99.99, 100]\n"),
+    V("selector table: one row lacks p100", "break", _M, _SELECTOR_CHAIN,
+      "    table = ((10, (50, 100)), (100, (50, 90)), (1000, (50, 90, 99, 100)), (10000, (50, 90, 99, 99.9, 100)))\n    for upper_bound, percentiles in table:\n"
+      "        if sample_size < upper_bound:\n            return list(percentiles)\n    return [50, 90, 99, 99.9, 99.99, 100]\n", "O8.2"),
+    V("selector table: nothing selected above the last bound", "break", _M, _SELECTOR_CHAIN,
+      "    table = ((10, (50, 100)), (100, (50, 90, 100)), (1000, (50, 90, 99, 100)), (10000, (50, 90, 99, 99.9, 100)))\n    for upper_bound, percentiles in table:\n"
+      "        if sample_size < upper_bound:\n            return list(percentiles)\n", "O8.2"),
+    V("selector by bisect over the thresholds", "keep", _M, _SELECTOR_CHAIN,
+      "    sets = ([50, 100], [50, 90, 100], [50, 90, 99, 100], [50, 90, 99, 99.9, 100], [50, 90, 99, 99.9, 99.99, 100])\n"
+      "    return list(sets[sum(1 for bound in (10, 100, 1000, 10000) if sample_size >= bound)])\n"),
+    V("sample-type name hoisted out of the error-rate loop (benign b4 shape)", "keep", _M, _ER_LOOP,
+      "        wanted = sample_type.name.lower() if sample_type is not None else None\n" + _ER_LOOP.replace("sample_type is None or doc[\"sample-type\"] == sample_type.name.lower()", "wanted is None or doc[\"sample-type\"] == wanted")),
+    V("hoisted sample-type name computed under a truthiness test (Warmup == 0 selects all samples)", "break", _M, _ER_LOOP,
+      "        wanted = sample_type.name.lower() if sample_type else None\n" + _ER_LOOP.replace("sample_type is None or doc[\"sample-type\"] == sample_type.name.lower()", "wanted is None or doc[\"sample-type\"] == wanted"), "O8.6"),
+    V("error rate by comprehension and a filter helper", "keep", _M, _ER_LOOP + _ER_TAIL,
+      "        matching = [d for d in self.docs if self._is_request_of(d, task, operation_type, sample_type)]\n        if not matching:\n            return 0.0\n"
+      "        return sum(1 for d in matching if d[\"meta\"][\"success\"] is False) / len(matching)\n\n    @staticmethod\n    def _is_request_of(doc, task, operation_type, sample_type):\n"
+      "        if doc[\"name\"] != \"service_time\" or doc[\"task\"] != task:\n            return False\n        if operation_type is not None and doc[\"operation-type\"] != operation_type:\n            return False\n"
+      "        return sample_type is None or doc[\"sample-type\"] == sample_type.name.lower()\n"),
+    V("error rate filter helper does not compare the task", "break", _M, _ER_LOOP + _ER_TAIL,
+      "        matching = [d for d in self.docs if self._is_request_of(d, task, operation_type, sample_type)]\n        if not matching:\n            return 0.0\n"
+      "        return sum(1 for d in matching if d[\"meta\"][\"success\"] is False) / len(matching)\n\n    @staticmethod\n    def _is_request_of(doc, task, operation_type, sample_type):\n"
+      "        if doc[\"name\"] != \"service_time\":\n            return False\n        if operation_type is not None and doc[\"operation-type\"] != operation_type:\n            return False\n"
+      "        return sample_type is None or doc[\"sample-type\"] == sample_type.name.lower()\n", "O8.6"),
+    V("error rate without the empty guard", "break", _M, _ER_TAIL, "        return error / total_count\n", "O8.6"),
+    V("percentile_value restructured (position / weight, convex combination)", "keep", _M, _PV_BODY,
+      "        position = (len(sorted_values) - 1) * float(percentile) * 0.01\n        below = int(position)\n        weight = position - below\n        if weight == 0:\n"
+      "            return sorted_values[below]\n        return sorted_values[below] * (1.0 - weight) + sorted_values[below + 1] * weight\n"),
+    V("restructured percentile_value with the weights exchanged", "break", _M, _PV_BODY,
+      "        position = (len(sorted_values) - 1) * float(percentile) * 0.01\n        below = int(position)\n        weight = position - below\n        if weight == 0:\n"
+      "            return sorted_values[below]\n        return sorted_values[below] * weight + sorted_values[below + 1] * (1.0 - weight)\n", "O8.7"),
+    V("get_mean with keyword arguments and a guard clause", "keep", _M, "        stats = self.get_stats(name, task, operation_type, sample_type)\n        return stats[\"avg\"] if stats else None",
+      "        s = self.get_stats(name, sample_type=sample_type, task=task, operation_type=operation_type)\n        if s is None:\n            return None\n        return s[\"avg\"]"),
+    V("get_mean treats an average of 0 as missing", "break", _M, "        return stats[\"avg\"] if stats else None", "        return stats[\"avg\"] if stats and stats[\"avg\"] else None", "O8.8"),
+    V("get_median asks for the numeric 50 and reads it with .get", "keep", _M, "        median = \"50.0\"", "        median = 50"),
+    V("get_median drops the operation type", "break", _M, "        percentiles = self.get_percentiles(name, task, operation_type, sample_type, percentiles=[median])",
+      "        percentiles = self.get_percentiles(name, task, None, sample_type, percentiles=[median])", "O8.8"),
+    [V("summary queries through a filter dictionary and a helper", "keep", _M, _SUMMARY_QUERIES,
+       "        selector = {\"task\": task_name, \"operation_type\": operation_type}\n        normal = dict(selector, sample_type=SampleType.Normal)\n        mean = self.store.get_mean(metric_name, **normal)\n"
+       "        median = self.store.get_median(metric_name, **normal)\n        unit = self.store.get_unit(metric_name, **selector)\n        stats = self._normal_stats(metric_name, normal)\n"),
+     V("", "keep", _M, "    def shard_stats(self, metric_name):", "    def _normal_stats(self, metric_name, filters):\n        return self.store.get_stats(metric_name, **filters)\n\n    def shard_stats(self, metric_name):")],
+    [V("summary helper receives filters without the operation type", "break", _M, _SUMMARY_QUERIES,
+       "        selector = {\"task\": task_name, \"operation_type\": operation_type}\n        normal = dict(selector, sample_type=SampleType.Normal)\n        mean = self.store.get_mean(metric_name, **normal)\n"
+       "        median = self.store.get_median(metric_name, **normal)\n        unit = self.store.get_unit(metric_name, **selector)\n"
+       "        stats = self._normal_stats(metric_name, {\"task\": task_name, \"sample_type\": SampleType.Normal})\n", "O8.1"),
+     V("", "break", _M, "    def shard_stats(self, metric_name):", "    def _normal_stats(self, metric_name, filters):\n        return self.store.get_stats(metric_name, **filters)\n\n    def shard_stats(self, metric_name):")],
+    V("sample size from a Normal-filtered value query", "keep", _M, "        sample_size = stats[\"count\"] if stats else 0",
+      "        sample_size = len(self.store.get(metric_name, task=task, operation_type=operation_type, sample_type=sample_type))"),
+    V("percentiles requested for a task without normal samples", "break", _M, "        if sample_size > 0:\n            percentiles = self.store.get_percentiles(", "        if True:\n            percentiles = self.store.get_percentiles(", "O8.1"),
+    V("summary min and max exchanged", "break", _M, "                \"min\": stats[\"min\"],\n                \"mean\": mean,", "                \"min\": stats[\"max\"],\n                \"mean\": mean,", "O8.8"),
+    V("latency mean dropped when it is 0", "break", _M, "            stats[\"mean\"] = mean\n", "            if mean:\n                stats[\"mean\"] = mean\n", "O8.9"),
+    V("op-metrics record built with dict() / update()", "keep", _M, _OP_DOC,
+      "        doc = dict(task=task, operation=operation, throughput=throughput, latency=latency)\n        doc[\"service_time\"] = service_time\n"
+      "        doc.update({\"processing_time\": processing_time, \"error_rate\": error_rate, \"duration\": duration})\n"),
+    V("op-metrics passed by keyword through locals", "keep", _M, _ADD_CALL,
+      "                    tput = self.summary_stats(\"throughput\", t, op_type)\n                    svc = self.single_latency(t, op_type, metric_name=\"service_time\")\n"
+      "                    result.add_op_metrics(\n                        task=t,\n                        operation=task.operation.name,\n                        throughput=tput,\n"
+      "                        service_time=svc,\n                        latency=self.single_latency(t, op_type),\n"
+      "                        processing_time=self.single_latency(t, op_type, metric_name=\"processing_time\"),\n                        error_rate=error_rate,\n                        duration=duration,\n"
+      "                        meta=self.merge(self.track.meta_data, self.challenge.meta_data, task.operation.meta_data, task.meta_data),\n"),
+    V("op-metrics by keyword: latency and processing time exchanged", "break", _M, _ADD_CALL,
+      "                    result.add_op_metrics(\n                        task=t,\n                        operation=task.operation.name,\n                        throughput=self.summary_stats(\"throughput\", t, op_type),\n"
+      "                        service_time=self.single_latency(t, op_type, metric_name=\"service_time\"),\n                        processing_time=self.single_latency(t, op_type),\n"
+      "                        latency=self.single_latency(t, op_type, metric_name=\"processing_time\"),\n                        error_rate=error_rate,\n                        duration=duration,\n"
+      "                        meta=self.merge(self.track.meta_data, self.challenge.meta_data, task.operation.meta_data, task.meta_data),\n", "O8.3"),
+    V("record key through a helper and a lookup table", "keep", _M, _KEY_METHODS,
+      "        return [self._key(v) for v in self.op_metrics]\n\n    @staticmethod\n    def _key(record):\n        return record[\"task\"] if \"task\" in record else record[\"operation\"]\n\n"
+      "    def metrics(self, task):\n        by_key = {}\n        for r in self.op_metrics:\n            by_key.setdefault(self._key(r), r)\n        return by_key.get(task)\n"),
+    V("record key helper prefers the operation name", "break", _M, _KEY_METHODS,
+      "        return [v.get(\"task\", v[\"operation\"]) for v in self.op_metrics]\n\n    @staticmethod\n    def _key(record):\n        return record.get(\"operation\", record.get(\"task\"))\n\n"
+      "    def metrics(self, task):\n        by_key = {}\n        for r in self.op_metrics:\n            by_key.setdefault(self._key(r), r)\n        return by_key.get(task)\n", "O8.3"),
+    V("results as_dict as a copy of vars(self)", "keep", _M, "    def as_dict(self):\n        return self.__dict__\n", "    def as_dict(self):\n        return {k: v for k, v in vars(self).items()}\n"),
+    V("results as_dict leaves the per-task records out", "break", _M, "    def as_dict(self):\n        return self.__dict__\n",
+      "    def as_dict(self):\n        return {k: v for k, v in vars(self).items() if k != \"op_metrics\"}\n", "O8.3"),
+    V("race results written with update()", "keep", _M, "            d[\"results\"] = self.results.as_dict()", "            d.update(results=self.results.as_dict())"),
+    V("race results written without the empty members", "break", _M, "            d[\"results\"] = self.results.as_dict()", "            d.update(results={k: v for k, v in self.results.as_dict().items() if v})", "O8.4"),
+    [V("per-shard flattening in a helper", "keep", _M, "        flat_values = [w for v in values for w in v] if values else []\n", "        flat_values = self._flatten(values)\n"),
+     V("", "keep", _M, "    def ml_processing_time_stats(self):", "    @staticmethod\n    def _flatten(arrays):\n        flat = []\n        for a in arrays or []:\n            flat += a\n        return flat\n\n    def ml_processing_time_stats(self):")],
+    [V("per-shard flattening helper keeps the last array only", "break", _M, "        flat_values = [w for v in values for w in v] if values else []\n", "        flat_values = self._flatten(values)\n", "O8.10"),
+     V("", "break", _M, "    def ml_processing_time_stats(self):", "    @staticmethod\n    def _flatten(arrays):\n        flat = []\n        for a in arrays or []:\n            flat = a\n        return flat\n\n    def ml_processing_time_stats(self):")],
 ]
